@@ -12,2480 +12,1198 @@ Definition show_fres (r : fres) : string :=
   end.
 Definition check (rs : list rune) : string := digest (show_fres (format_res rs)).
 Definition full (rs : list rune) : string := show_fres (format_res rs).
-Eval vm_compute in ("<<<M930>>>" ++ check (runes_of_ascii "  root packet
-    i64_ { u64  Z9_@lengthOf( // packet A { u8 x, }
-uint8x )	`
-`
-    , repeat zchar x ,
-    match Packet as
-    a1
-    { [ ""a	b""] : packetx [ 255 , ""x y"" , """ ++ [28040; 24687]%N ++ runes_of_ascii """	, 10, ""it's"" , 4294967296, """" ]: falsey	, } , rootA {repeat
-charz { // " ++ [128512]%N ++ runes_of_ascii " emoji
-match	x as	a1
-{ 10
-: metadata //
-,[
-""{,}""
-,	00 , ""a	b"" ,007
-    , ""abc"" ,""// no comment""	]
-: int	,	3:	tag , 255 : x ,
-""{,}""  :
-Z9_, } ,
-} ,
-    //
-    body // @lengthOf(
-{
-    repeat roots {
-f32
-    i8i8/// triple
-@calculatedFrom(
-""a\\""	)
-    `line1
-line2` , }	,i8 leftPad `doc`	, }
-,o@calculatedFrom(
-    """ ++ [28040; 24687]%N ++ runes_of_ascii """ )	`" ++ [28040; 24687; 31867; 22411]%N ++ runes_of_ascii "` ,
-} , match calculatedFrom as chars {
-    // " ++ [27880; 37322]%N ++ runes_of_ascii "
-    10 :  i64_ , } , @lengthOf( i8i8
-    ) @tag(3
-)
-match Logon as o { [ """"
-    // a // b
-    , //
-42,""it's"" ,
-    """ ++ [28040; 24687]%N ++ runes_of_ascii """ ,"""" ,	""" ++ [28040; 24687]%N ++ runes_of_ascii """ ] : tag , }// " ++ [27880; 37322]%N ++ runes_of_ascii "
-, // `tick` ""quote"" 'q'
-zchar[0123456789] rootA @calculatedFrom(
-    ""abc"" ) ,zchar[ 4294967296	] Z9_ ,
-zchar[
-65535
-// " ++ [128512]%N ++ runes_of_ascii " emoji
-// " ++ [128512]%N ++ runes_of_ascii " emoji
-]Header @lengthOf(
-trueish
-    ) ,@tag(
-// `tick` ""quote"" 'q'
-//x
-0123456789 // " ++ [27880; 37322]%N ++ runes_of_ascii "
-) repeat trueish { float{repeat char[ 10
-] metadata, f32 float ,
-As
-    @calculatedFrom(
-""" ++ [233]%N ++ runes_of_ascii "t" ++ [233]%N ++ runes_of_ascii """
-    )  , tag@calculatedFrom( ""CRC32"" // trailing space 
-) `line1
-line2`
-    , } ,} , } packet packetx { char[]
-    options1 ,
-//
-//x
-@calculatedFrom( """ ++ [28040; 24687]%N ++ runes_of_ascii """  )@tag(	1
-/// triple
-//
-)
-    match
-    lengthOf as calculatedFrom
-    {""packet""
-    :
-    //
-    uint8x /// triple
-[ """ ++ [128512]%N ++ runes_of_ascii """	]: trueish
+Eval vm_compute in ("<<<M273>>>" ++ check (runes_of_ascii "packet len
+{  @calculatedFrom( ""`tick`"" )	repeat zchar[ 00
+    ]chars //	t
+`a\`
     ,
-[ ""CRC32"" ,  3
-    ] : uint8x , [ ""\n"" ,
-""{,}"" ] //
-: metadata ,
-} ,@tag( 00 )match Foo
-as
-falsey { 0 : pack
-    , } , @calculatedFrom(  ""{,}"")	repeat Logon
-    `" ++ [233]%N ++ runes_of_ascii "`
-,
-    @lengthOf(stringy) A @lengthOf( pack ) ,
-@tag(	00 // packet A { u8 x, }
-) match u8x as Packet {65535 : _x
-    ,
-}	,
-    // a // b
-    @rightPad ( )	leftPad
-    @calculatedFrom( // packet A { u8 x, }
-"""" )`
-` /// triple
-, @calculatedFrom(
-""""  ) @tag(// trailing space 
-4294967296 )
-@tag( 7 ) zchar[// `tick` ""quote"" 'q'
-10 ]
-asx `tab	here`
-, @lengthOf(options1)
-    //
-    f32 packetx ,
-    // trailing space 
-    calculatedFrom {
-    zchar[0
-]Packet
-, } , // @lengthOf(
-} MetaData
-    u128
-{ }packet  o{ @lengthOf( lengthOf ) tag	body  `line1
-line2`
-    ,packetx , repeat uint32 chars ,
-match pack as u128  { ""it's"" : a1, [ ""x y""
-, ""it's"" ] : packetx
-/// triple
-// @lengthOf(
-, }, @leftPad (/// triple
-)	@calculatedFrom( ""packet""
-)
-    //
-    @calculatedFrom(
-""1"")
-    match i8i8 as Pad { [ 1
-, 4294967296 ,
-// `tick` ""quote"" 'q'
-//x
-""\n"" ] :
-    T, }
-, tag
-    Foo	, A{ repeat
-// a // b
-// " ++ [128512]%N ++ runes_of_ascii " emoji
-pack
-, // `tick` ""quote"" 'q'
-repeat T {
-string asx@calculatedFrom( ""// no comment"" )`
-`//	t
-,
-    char[] x
-@lengthOf( trueish	) // a // b
-,	zchar[
-007] body @lengthOf(  A
-    )	`two words` , }
-, repeat uint8x{ match
-leftPad as  A {
-[ ""\" ++ [233]%N ++ runes_of_ascii """ ] : metadata , }// @lengthOf(
-,	repeat MetaDataX//
-int `u8 x,` , match rootA as  Foo { ""x y"": Logon,	},
-match MetaDataX as
-    // c
-    metadata
-{ 4294967296 // @lengthOf(
-: _x , [""{,}"" , """" // `tick` ""quote"" 'q'
-, ""1"" ,// " ++ [128512]%N ++ runes_of_ascii " emoji
-4294967296 , ""\" ++ [233]%N ++ runes_of_ascii """
-    , ""abc""
-    // packet A { u8 x, }
-    ] : roots , [""{,}"" // trailing space 
-,
-    """ ++ [128512]%N ++ runes_of_ascii """] : Z9_  ,
-""a	b""	:
-trueish  , ""\" ++ [233]%N ++ runes_of_ascii """ :int
-[
-    0 , 1  ]:
-i64_, },
-    } // @lengthOf(
-, }	, repeat chars u8x,	Logon
-int `u8 x,` ,
-repeat packetx
-    `a\`
-,  }
-")).
-Eval vm_compute in ("<<<M1355>>>" ++ check (runes_of_ascii "packet float {  @lengthOf(
-matchKey )	int64	options1 @calculatedFrom( ""{,}"" )`it's`, repeat
-i32 msg_type `a\` ,  options1  @calculatedFrom(""it's""
-)  `// not a comment`, @lengthOf( roots) u8 repeatCount
-`say ""hi""` ,
-    int16 len, char[]
-chars @lengthOf(
-    repeatCount ) ,
-    /// triple
-    @calculatedFrom(""{,}"" ) match body as i64_{ ""x y""
-    :	pack  ,
-//
-// @lengthOf(
-}	,
-    A
-{ i8i8 @calculatedFrom(""a	b"" ),} // c
-, @leftPad( '\x00' ) /// triple
-metadata { repeat Foo	{	Z9_
-//x
-// `tick` ""quote"" 'q'
-trueish , } , }
-, @calculatedFrom(
-// " ++ [27880; 37322]%N ++ runes_of_ascii "
-/// triple
-""" ++ [233]%N ++ runes_of_ascii "t" ++ [233]%N ++ runes_of_ascii """ // " ++ [128512]%N ++ runes_of_ascii " emoji
-)
-@lengthOf( lengthOf	)
-    // packet A { u8 x, }
-    @rightPad  (
-    '\x00' // " ++ [128512]%N ++ runes_of_ascii " emoji
-)
-repeat
-    char[ 255] // c
-string_`a\` ,
-    }
-MetaData
-    trueish {o
-T	,	char[ 1 ] BodyLength`{ , }` , } packet Logon
-{ @calculatedFrom(""a\\"") // `tick` ""quote"" 'q'
-match roots  as
-As { 255:stringy , [ // packet A { u8 x, }
-10 , """" , """ ++ [233]%N ++ runes_of_ascii "t" ++ [233]%N ++ runes_of_ascii """
-, ""a\""b"" ,
-    ""\" ++ [233]%N ++ runes_of_ascii """ ]
-:  _x  , }
-, }	packet
-    i64_	{ // a // b
-@tag( 007
-)float32	metadata`two words`
-// @lengthOf(
-// `tick` ""quote"" 'q'
-,	match Header as matchKey{	""`tick`"" : Pad ,[""a\""b"" ,""a	b""
-    , 65535
-// packet A { u8 x, }
-// packet A { u8 x, }
-,
-10  ,""1""
-,  ""a\""b"" , ""abc"",
-""`tick`""] : rootA	,[255 , ""a\""b"" ]:// trailing space 
-body ,
-    // `tick` ""quote"" 'q'
-    ""\n""	: stringy
-    ,
-    [ 0  , ""\" ++ [233]%N ++ runes_of_ascii """ ,	""\" ++ [233]%N ++ runes_of_ascii """ , 65535 , 3
-    ,0 ,""1"" ,
-//x
-// trailing space 
-42 ]
-:Z9_,
-// a // b
-// @lengthOf(
-""a\""b"" //
-: string_ , } ,len
-MetaDataX ,u @lengthOf(calculatedFrom  ) `a\` , Foo {
-    match crc
-// @lengthOf(
-// `tick` ""quote"" 'q'
-as
-    // trailing space 
-    asx // " ++ [27880; 37322]%N ++ runes_of_ascii "
-{
-""1"":leftPad
-    ,
-""" ++ [128512]%N ++ runes_of_ascii """
-: leftPad
-[ ""{,}""  ] : string_
-, ""CRC32"":
-crc, 42 :u
-    }
-    ,
-    match asx as u {
-    [4294967296 ,1	]:	zchar ,//x
-} ,	string body ,
-    // " ++ [128512]%N ++ runes_of_ascii " emoji
-    lengthOf asx
-    `two words`
-    // trailing space 
-    , } ,charz @calculatedFrom( ""abc"" ) // trailing space 
-`{ , }` ,char[
-// a // b
-//x
-0123456789]
-    // a // b
-    o @lengthOf( packetx )
-    // " ++ [128512]%N ++ runes_of_ascii " emoji
-    , }")).
-Eval vm_compute in ("<<<M3741>>>" ++ check (runes_of_ascii "packet uint8x {
-}
-
-MetaData trueish {
-}
-
-root packet tag {
-    @calculatedFrom(""x y"")
-    @tag(255)
-    @calculatedFrom(""a	b"")
-    string_ Packet,
-    repeat u8 roots `" ++ [28040; 24687; 31867; 22411]%N ++ runes_of_ascii "`,
-    roots @calculatedFrom(""it's""),
-    rootA {
-        Foo @calculatedFrom(""x y"") `{ , }`,
-    },//
-    match MetaDataX as x_y_z {
-        3 : trueish,
-        // a // b
-        0 : zchar,
-        /// triple
-        """ ++ [233]%N ++ runes_of_ascii "t" ++ [233]%N ++ runes_of_ascii """ : crc,
-    },
-    roots {
-        repeat zchar[10] A,
-    },
-    @leftPad('\x00')
-    repeat string lengthOf,
-    @tag(0)
-    u128,
-}
-
-packet body {
-    len `crlf
-        line`,
-    @lengthOf(Pad)
-    @calculatedFrom(""\" ++ [233]%N ++ runes_of_ascii """)
-    @leftPad(' ')
-    repeat float {
-        zchar[1] options1,
-        int32 metadata @lengthOf(f32a),
-    },
-    match Packet as _x {
-        255 : Header,
-        007 : packetx,
-        [42, 255] : msg_type,
-        // " ++ [128512]%N ++ runes_of_ascii " emoji
-        00 : lengthOf,
-        [3, 65535] : string_,
-        ""abc"" : uint8x,
-    },
-    repeat x_y_z {
-        Foo {
-            repeat A calculatedFrom,
-            Z9_ @calculatedFrom(""it's"") `{ , }`,
-            repeat u repeatCount,
-            repeat u16 u8x `// not a comment`,
-        },
-        u32 lengthOf `
-                `,
-        int8 rootA,
-        repeat a1 {
-            match options1 as repeatCount {
-                [255, 007] : packetx,
-            },
-            As {
-                repeatCount u,
-                zchar[255] BodyLength `{ , }`,
-            },
-        },
-    },
-    char[4294967296] A `" ++ [233]%N ++ runes_of_ascii "`,
-    u8 int,
-    repeat Packet {
-        x calculatedFrom `" ++ [233]%N ++ runes_of_ascii "`,
-    },
-    A,
-    Foo @lengthOf(matchKey) `" ++ [233]%N ++ runes_of_ascii "`,
-    // `tick` ""quote"" 'q'
-    // a // b
-    uint32 options1,
-}
-
-packet calculatedFrom {
-}")).
-Eval vm_compute in ("<<<M4203>>>" ++ check (runes_of_ascii "options {
-    o = ""it's"";
-}
-
-/// triple
-/// triple
-packet calculatedFrom {
-    int32 Header @calculatedFrom(""x y"") `" ++ [28040; 24687; 31867; 22411]%N ++ runes_of_ascii "`,
-    @tag(0)
-    @lengthOf(f32a)
-    match i64_ as T {
-        255 : Foo,
-        1 : T,
-        ""a	b"" : Header,
-        1 : x,
-    },
-}
-
-root packet options1 {
-    @leftPad(' ')
-    match uint8x as lengthOf {
-        ""`tick`"" : x_y_z,
-    },
-    @calculatedFrom(""a\""b"")
-    repeat body `
-    `,
-    char[10] float,
-    match stringy as repeatCount {
-        [42, ""`tick`""] : float,
-        //	t
-        ""abc"" : matchKey,
-        // a // b
-        7 : As,
-        255 : pack,
-        ""{,}"" : len,
-        3 : metadata,
-    },
-    char[3] trueish @calculatedFrom(""CRC32""),
-    repeat charz {
-        match Pad as Z9_ {
-            ""packet"" : f32a,
-            ""{,}"" : f32a,
-            7 : _x,
-            00 : repeatCount,
-            4294967296 : asx,
-            ""CRC32"" : u128,
-            //x
-        },
-        char[42] crc `two words`,
-        // @lengthOf(
-        //	t
-        repeat Foo `doc`,
-    },
-}
-
-options {
-    falsey = false;// trailing space 
-    Header = true;// `tick` ""quote"" 'q'
-    packetx = u64;
-    calculatedFrom = ""\n"";
-}
-
-packet body {
-    @tag(42)
-    repeat i16 u128 `// not a comment`,
-    @tag(0)
-    @tag(0123456789)
-    @calculatedFrom(""\n"")
-    zchar[255] x_y_z @lengthOf(stringy),
-    f32a @lengthOf(Logon),
-    repeat zchar[10] _x,
-    float64 charz ``,
-    Pad @lengthOf(u),
-    body ``,
-}")).
-Eval vm_compute in ("<<<M878>>>" ++ check (runes_of_ascii "root packet a1
-{ uint64 body , @lengthOf(
-rootA )
-char[ 1
-    ] zchar //
-, BodyLength // @lengthOf(
-,
-string_
-, char[] float
-@lengthOf(lengthOf  ) , //
-uint32 asx`" ++ [28040; 24687; 31867; 22411]%N ++ runes_of_ascii "` , char[]	uint8x @calculatedFrom( ""abc""
-    )
-, @tag( 255 )@calculatedFrom( ""a\\"" )zchar[
-// a // b
-// @lengthOf(
-3 ]
-    options1 ,
-    } packet charz { @rightPad	( ' ' ) matchKey @lengthOf(u) `u8 x,` // @lengthOf(
-,@lengthOf(len) @lengthOf(falsey)
-    u @calculatedFrom( ""a\\"" ), match i8i8 as
-    Packet {
-    [""a	b"" ]
-: roots // `tick` ""quote"" 'q'
-,
-    ""abc"":
-    // trailing space 
-    trueish	, [""a\\"",
-    65535 ] // packet A { u8 x, }
-:
-    asx
-0123456789:// " ++ [27880; 37322]%N ++ runes_of_ascii "
-a1	, 1
-// packet A { u8 x, }
-//
-:
-    i64_ } ,  match len as Header {	[
-    0
-    , 0123456789 , 7 ,0 , ""\n""
-    ,""a\\""
-// a // b
-//
-]:
-o
-    , ""x y""
-    // `tick` ""quote"" 'q'
-    :
-    crc [ 3 ,""\" ++ [233]%N ++ runes_of_ascii """  ]
-    : lengthOf//
-,  [10,""x y"" ] :
-    u8x
-1
-:Packet /// triple
-, 007 :
-    Z9_ ,
-} , @calculatedFrom(
-""packet""
-    ) @tag(65535) repeat Pad rootA , @tag(
-4294967296  )@lengthOf(stringy ) crc //
-@lengthOf( uint8x ) `" ++ [28040; 24687; 31867; 22411]%N ++ runes_of_ascii "` , }
-    // @lengthOf(
-    MetaData u8x { len
-calculatedFrom	, // packet A { u8 x, }
-u16 asx , } MetaData Logon
-{ u16 chars  `` ,
-A matchKey `a\`,char[007 ]Header , len uint8x,
-    A Packet `line1
-line2`
-//	t
-//x
-,
-string trueish
-    `u8 x,` ,	}
-")).
-Eval vm_compute in ("<<<M900>>>" ++ check (runes_of_ascii "options{ x_y_z
-=	""" ++ [128512]%N ++ runes_of_ascii """ ;
-BodyLength
-= 0 a1=""a\\"" ;trueish =
-    ""{,}"" ;	} packet	crc { @calculatedFrom( ""CRC32""  ) char[]
-    u8x @lengthOf( lengthOf )// " ++ [27880; 37322]%N ++ runes_of_ascii "
-`line1
-line2` ,
-Z9_ int, repeat
-    float
-    // a // b
-    {char[ 00	]
-i64_  `` , // c
-}
-, body
-@lengthOf( stringy) // packet A { u8 x, }
-`// not a comment`
-    ,	} MetaData
-u128 { char// " ++ [128512]%N ++ runes_of_ascii " emoji
-charz , float64
-msg_type	`tab	here`
-    ,Logon
-stringy `// not a comment` ,	u64 lengthOf ,chars
-u8x ,
-    string_ crc , } root packet
-zchar { @calculatedFrom(""" ++ [28040; 24687]%N ++ runes_of_ascii """ ) @tag(
-10
-)float32 len
-    , } packet calculatedFrom{	repeat
-    // " ++ [128512]%N ++ runes_of_ascii " emoji
-    int8 zchar, @lengthOf(
-    asx ) lengthOf
-    @lengthOf(
-u ) ,	Header
-@lengthOf( rootA )
-`it's`  ,@tag( 65535 )  match u8x as
-Header { """ ++ [233]%N ++ runes_of_ascii "t" ++ [233]%N ++ runes_of_ascii """
-    :matchKey """ ++ [28040; 24687]%N ++ runes_of_ascii """ :x_y_z ,
-    0 : trueish, [ """" /// triple
-, """ ++ [128512]%N ++ runes_of_ascii """ ,  """ ++ [28040; 24687]%N ++ runes_of_ascii """ , 3 ,
-    7// " ++ [128512]%N ++ runes_of_ascii " emoji
-, ""`tick`"" ,""""
-]
-: _x },
-    //x
-    @leftPad(
-' ' ) string_ falsey	`say ""hi""` // " ++ [27880; 37322]%N ++ runes_of_ascii "
-, @leftPad (
-' ') @rightPad  (
-'0' )
-    @leftPad( )
-match	roots as
-a1{ ""packet"" : T }
-, @calculatedFrom(
-    ""`tick`""
-    // " ++ [27880; 37322]%N ++ runes_of_ascii "
-    ) @calculatedFrom( ""`tick`"" )
-@calculatedFrom(// a // b
-""\" ++ [233]%N ++ runes_of_ascii """)
-    // a // b
-    zchar[0]
-    A ,
-// " ++ [27880; 37322]%N ++ runes_of_ascii "
-//
-zchar[ //x
-0123456789 ]x ,
-    }
-")).
-Eval vm_compute in ("<<<M631>>>" ++ check (runes_of_ascii "packet pack {
-    }options {	As
-//
-// " ++ [128512]%N ++ runes_of_ascii " emoji
-= ""\" ++ [233]%N ++ runes_of_ascii """ ; }
-    root packet lengthOf{
-    @tag(65535 ) @calculatedFrom( """ ++ [233]%N ++ runes_of_ascii "t" ++ [233]%N ++ runes_of_ascii """ ) @calculatedFrom(""abc"" )	repeat string
-msg_type
-    ,
-    @calculatedFrom(
-    """ ++ [233]%N ++ runes_of_ascii "t" ++ [233]%N ++ runes_of_ascii """)
-char[ 255
-] // packet A { u8 x, }
-Logon , u64 pack@calculatedFrom( ""a\\"" /// triple
-), @rightPad (
-    '0' ) T
-{ zchar[ 3 ] u8x @calculatedFrom( ""CRC32""
-)`two words` , o{_x {
-    // " ++ [27880; 37322]%N ++ runes_of_ascii "
-    float32 calculatedFrom
-    , } ,
-    repeat
-int64 u128 ,float32 string_ @lengthOf(msg_type )`say ""hi""` , } ,
-} ,i16 charz`a\`//
-, @lengthOf( x	) leftPad {
-As { int64 i8i8
-,
-} ,
-    // packet A { u8 x, }
-    } ,
-    @tag( 7	) @tag( 7
-    /// triple
-    ) x_y_z@lengthOf( body)
-    ,@tag(
-007 )repeat	calculatedFrom _x ,@calculatedFrom(	""\n"" )
-    repeat
-    u8
-trueish , i16
-calculatedFrom `it's`
-    , }
-packet	A { match As as chars {""1"" :options1 ,} , } packet Packet { @leftPad
-    // " ++ [27880; 37322]%N ++ runes_of_ascii "
-    ( '\x00'
-    ) float64 // c
-matchKey ,
-zchar[
-65535	] Pad`" ++ [233]%N ++ runes_of_ascii "` ,
-    repeat
-uint32 options1,	@calculatedFrom(
-    ""// no comment"" ) char[] metadata `// not a comment`
-,Header @calculatedFrom( ""packet"" ) ``
-,  }
-// a // b
-")).
-Eval vm_compute in ("<<<M909>>>" ++ check (runes_of_ascii "options { f32a
-=
-007
-    ;body =""" ++ [128512]%N ++ runes_of_ascii """	i64_ // " ++ [27880; 37322]%N ++ runes_of_ascii "
-=zchar[ 0123456789
-]
-}
-options {
-    i8i8
-= // c
-""abc"" ; body = true T
-=
-float32} root packet MetaDataX
-    //	t
-    {	@rightPad
-    ( '\x00' )char[] // " ++ [128512]%N ++ runes_of_ascii " emoji
-matchKey ,
-    @calculatedFrom(""CRC32""
-) // c
-match
-int as
-options1 { """ ++ [233]%N ++ runes_of_ascii "t" ++ [233]%N ++ runes_of_ascii """ : calculatedFrom , } ,@tag(  7) char[
-    65535 ] packetx `" ++ [233]%N ++ runes_of_ascii "` , @calculatedFrom(
-    """ ++ [28040; 24687]%N ++ runes_of_ascii """) string
-    A  ,  repeat T{
-repeat tag
-`// not a comment`
-, } ,
-    // `tick` ""quote"" 'q'
-    @rightPad	( '0' ) @calculatedFrom( ""{,}"") Header
-    {
-int8 A
-    `u8 x,`
-    , chars  { zchar
-{ metadata//	t
-metadata ,} ,zchar[ 00
-] Foo // " ++ [27880; 37322]%N ++ runes_of_ascii "
-, repeat lengthOf
-{ x	`line1
-line2` ,
-    repeat
-    // trailing space 
-    zchar[ 1
-    //x
-    ]
-trueish ,},
-match uint8x as As { 1 :u128
-, ""a\""b""	:i64_ 0 : string_,} ,
-} , }//
-,//	t
-repeat char float `say ""hi""`  ,
-// a // b
-//
-repeat
-    char[]x `say ""hi""`
-    , repeat char[]
-    //	t
-    A `{ , }` , Header @lengthOf( lengthOf ) , } root packet
-float { string_/// triple
-repeatCount ,
-repeat //x
-rootA x  ,  }
-// " ++ [128512]%N ++ runes_of_ascii " emoji
-")).
-Eval vm_compute in ("<<<M894>>>" ++ check (runes_of_ascii "packet leftPad{	char[]
-matchKey@lengthOf( MetaDataX ) , }
-options
-{
-}
-    packet
-    f32a {
-@lengthOf(
-int
-) @leftPad
-('\x00' )
-@calculatedFrom(
-""\" ++ [233]%N ++ runes_of_ascii """
-    // a // b
-    )  repeat
-    T BodyLength ,@leftPad
-('\x00' )uint16 body @calculatedFrom(  ""{,}"" ) `" ++ [233]%N ++ runes_of_ascii "` , @leftPad	(  ' '
-    // trailing space 
-    )
-    match Z9_ as Foo // a // b
-{ 7
-: MetaDataX
-,
-    4294967296 :// c
-options1 , ""x y"" :
-A} ,	repeat zchar[
-    10 //x
-] f32a
-    `it's`//
-, // trailing space 
-} packet x_y_z{ uint32 _x
-    , MetaDataX { trueish metadata  ,char[
-    // " ++ [128512]%N ++ runes_of_ascii " emoji
-    42 ]
-// " ++ [27880; 37322]%N ++ runes_of_ascii "
-//	t
-falsey, } //x
-, char[] packetx//
-`it's`  , falsey , repeat metadata `it's` ,//x
-@tag(
-42)
-x
-@calculatedFrom(	""x y"" ) , @lengthOf( float // a // b
-)
-    // packet A { u8 x, }
-    repeat Foo{ asx
-// a // b
-// " ++ [128512]%N ++ runes_of_ascii " emoji
-{ repeat char[]crc	`a\`, repeat A ,
-} , u  Packet `say ""hi""`, roots @calculatedFrom(/// triple
-""{,}"" // trailing space 
-) , zchar[ 65535
-]
-f32a @lengthOf( o) ,  }
-    ,
-// @lengthOf(
-// @lengthOf(
-}")).
-Eval vm_compute in ("<<<M4343>>>" ++ check (runes_of_ascii "options {
-    lengthOf = """ ++ [128512]%N ++ runes_of_ascii """
-    Pad = ""it's""
-    Packet = ' ';
-}
-
-packet stringy {
-    @calculatedFrom(""a\\"")
-    stringy asx `doc`,
-    f32a,
-    options1 {
-        f64 BodyLength @lengthOf(i64_),
-        matchKey roots,
-        repeat i8 chars,
-        /// triple
-    },
-    charz string_,
-    i8 repeatCount `crlf
-        line`,
-}
-
-packet uint8x {
-    @tag(00)
-    uint64 MetaDataX,
-    @tag(00)
-    char uint8x @lengthOf(uint8x),
-    roots @lengthOf(stringy) `
-        `,
-    @rightPad()
-    zchar[0123456789] T `" ++ [233]%N ++ runes_of_ascii "`,
-    @tag(42)
-    repeat i64 repeatCount,
-    falsey `doc`,
-    char[65535] falsey `say ""hi""`,
-    x_y_z int,
-    @lengthOf(MetaDataX)
-    match Logon as leftPad {
-        ""abc"" : zchar,
-        255 : A,
-    },
-}
-
-MetaData falsey {
-}
-
-packet BodyLength {
-    Pad asx,
-    @calculatedFrom(""a	b"")
-    string packetx `it's`,
-    float64 uint8x `two words`,
-    zchar[007] uint8x @calculatedFrom(""a\\"") `" ++ [28040; 24687; 31867; 22411]%N ++ runes_of_ascii "`,
-}")).
-Eval vm_compute in ("<<<M1214>>>" ++ check (runes_of_ascii "packet float
-{ @calculatedFrom(
-""a\\""
-    ) char[
-00 ]zchar `line1
-line2` ,
-//	t
-// `tick` ""quote"" 'q'
-@lengthOf(
-calculatedFrom )
-    match chars as repeatCount // a // b
-{ // packet A { u8 x, }
-""CRC32"" : // packet A { u8 x, }
-f32a
-, }
-    , // packet A { u8 x, }
-} root
-    packet BodyLength {@rightPad ( '\x00' )u32 Header@lengthOf( A
-) , @leftPad
-( '0' // c
-)char[ 1 ] metadata@calculatedFrom(
-    ""x y""	) , repeat f32a {char[] _x @lengthOf( body ) `line1
-line2`, calculatedFrom
-{
-string msg_type,char[
-    0123456789	] int@lengthOf(
-    int )
-    ``	, } , } , trueish ,
-//x
-// `tick` ""quote"" 'q'
-char[] f32a ,
-    o Pad  , crc @lengthOf(
-    chars	)`" ++ [28040; 24687; 31867; 22411]%N ++ runes_of_ascii "` //
-,	@calculatedFrom(
-""\n""
-) // packet A { u8 x, }
-@lengthOf( leftPad ) BodyLength { repeat Logon
-    {
-lengthOf
-@lengthOf( trueish  ) `// not a comment`,} ,
-    }, }MetaData matchKey{
-uint64
-BodyLength , }
-")).
-Eval vm_compute in ("<<<M3822>>>" ++ check (runes_of_ascii "packet Header {
-    trueish @calculatedFrom(""a	b""),
-    Header @calculatedFrom(""a\\""),//	t
-    @calculatedFrom(""a\\"")
-    /// triple
-    i16 body @lengthOf(f32a),// packet A { u8 x, }
-    match stringy as _x {
-        ""`tick`"" : string_,
-        42 : u8x,
-        ""\n"" : repeatCount,
-        ""a\\"" : options1,
-        [
-            4294967296, ""{,}"", 4294967296, """ ++ [28040; 24687]%N ++ runes_of_ascii """, 3,
-            ""abc""
-        ] : u8x,
-    },
-    zchar[0123456789] MetaDataX,
-    @calculatedFrom(""x y"")
-    @lengthOf(A)
-    zchar[00] a1,
-    match options1 as calculatedFrom {
-        [
-            ""// no comment"", ""abc"", 65535, ""CRC32"", 0,
-            ""CRC32""
-        ] : uint8x,
-        ""// no comment"" : chars,
-        [""" ++ [233]%N ++ runes_of_ascii "t" ++ [233]%N ++ runes_of_ascii """, ""a	b""] : pack,
-        10 : tag,
-    },
-    @tag(42)
-    repeat len,
-    @lengthOf(u)
-    char[] f32a,// packet A { u8 x, }
-}")).
-Eval vm_compute in ("<<<M4608>>>" ++ check (runes_of_ascii "packet x {
-    u16 msg_type @lengthOf(BodyLength),// trailing space 
-    @calculatedFrom(""" ++ [28040; 24687]%N ++ runes_of_ascii """)
-    repeat Header {
-        char[0123456789] repeatCount,
-        zchar[7] i64_ @calculatedFrom(""" ++ [28040; 24687]%N ++ runes_of_ascii """),
-        repeat T zchar `tab	here`,
-    },
-    uint8 body `doc`,
-    repeat char[] i8i8,
-    uint32 f32a @calculatedFrom(""`tick`""),
-    @rightPad(' ')
-    match rootA as matchKey {
-        42 : lengthOf,
-        // `tick` ""quote"" 'q'
-        ""// no comment"" : Z9_,
-        [""a\\"", 1] : len,
-        10 : trueish,
-    },
-    f64 Logon @lengthOf(T) `crlf
-        line`,
-    match float as i8i8 {
-        ""\n"" : i64_,
-    },
-    @lengthOf(u8x)
-    // trailing space 
-    @leftPad('\x00')
-    char[007] body `it's`,
-    @leftPad('0')
-    string crc @calculatedFrom(""a\\"") `" ++ [28040; 24687; 31867; 22411]%N ++ runes_of_ascii "`,
-}")).
-Eval vm_compute in ("<<<M343>>>" ++ check (runes_of_ascii "packet
-Pad{
-    } options { _x
-= false
-/// triple
-// trailing space 
-;} MetaData	repeatCount{char[ 10 ]  As `it's`
-, T metadata `say ""hi""` , u16
-matchKey ,  }packet u128{f32
-    As@calculatedFrom( ""packet"") `a\` , repeat
-// packet A { u8 x, }
-// " ++ [128512]%N ++ runes_of_ascii " emoji
-char[ 7 ]
-// packet A { u8 x, }
-// `tick` ""quote"" 'q'
-T `say ""hi""`,
-    @lengthOf(
-    // c
-    rootA )u64 //
-trueish `{ , }` , repeat char[
-3 ] MetaDataX ,
-    repeat float64  i64_ ,i16
-    charz
-    ,u8 trueish @lengthOf(
-    int
-    )`u8 x,`
-    ,
-    @leftPad ( '0' ) match
-Header
-as
-f32a { [  007
-]
-:
-i8i8
-, ""a	b""	://x
-As ,
-[ ""\n"" ]  :	zchar ,
-    007:
-a1 ,	0123456789 : falsey
-, } , repeat float64 stringy	`a\`, } packet
-    MetaDataX
-{ roots
-    // @lengthOf(
-    leftPad `a\`, }")).
-Eval vm_compute in ("<<<M3772>>>" ++ check (runes_of_ascii "root packet calculatedFrom {
-    /// triple
-    @calculatedFrom(""{,}"")
-    match asx as i8i8 {
-        ""CRC32"" : f32a,
-        ""// no comment"" : Packet,
-        // trailing space 
-    },
-    repeat zchar[7] len,//
-    match options1 as string_ {
-        """ ++ [128512]%N ++ runes_of_ascii """ : metadata,
-        [""\n"", ""CRC32"", ""a\""b""] : x_y_z,
-        42 : string_,
-    },
-    @lengthOf(msg_type)
-    string Pad `tab	here`,
-    f32a,
-    match Logon as stringy {
-        007 : metadata,
-        [255, 10] : matchKey,
-        [10, ""1"", ""`tick`"", 0] : roots,
-        255 : o,
-        [1] : msg_type,
-        0123456789 : falsey,
-    },
-}
-
-root packet crc {
-}
-
-options {
-    falsey = false;
-    len = ""\" ++ [233]%N ++ runes_of_ascii """;
-    A = ""a	b""
-    lengthOf = ""1""
-}")).
-Eval vm_compute in ("<<<M4520>>>" ++ check (runes_of_ascii "packet As {
-    //	t
-    char[4294967296] o @calculatedFrom(""// no comment""),
-    @calculatedFrom(""\" ++ [233]%N ++ runes_of_ascii """)
-    Foo {
-        pack @lengthOf(uint8x),
-    },
-    @calculatedFrom(""it's"")
-    @lengthOf(Pad)
-    //
-    @calculatedFrom(""" ++ [128512]%N ++ runes_of_ascii """)
-    repeat zchar[42] BodyLength,
-    match body as T {
-        255 : msg_type,
-        4294967296 : metadata,
-        [""{,}"", 4294967296] : f32a,
-        7 : options1,
-        10 : float,
-        [""abc"", ""abc"", 0] : u,
-    },
-    repeat int64 o `
-        `,
-    i8i8 `// not a comment`,
-}
-
-packet x {
-}
-
-packet falsey {
-    repeat char Logon,
-}
-
-packet _x {
-    @calculatedFrom(""a\""b"")
-    @tag(7)
-    @calculatedFrom(""a\\"")
-    metadata,
-}")).
-Eval vm_compute in ("<<<M675>>>" ++ check (runes_of_ascii "packet uint8x {@lengthOf( Z9_) match A as As { 3
-    : float,""x y"" :
-    pack
-, 255  :
-    roots
-    ,
-    [  ""\n""]	: int
-    , // " ++ [27880; 37322]%N ++ runes_of_ascii "
-[ // @lengthOf(
-""CRC32"" , ""1""] :
-    len , } ,char[] options1`{ , }` ,	@tag(
-    255  )	f32a @calculatedFrom( """ ++ [28040; 24687]%N ++ runes_of_ascii """)`// not a comment` ,match
-    x as pack{ ""// no comment"" : roots //
-,
-    """ ++ [233]%N ++ runes_of_ascii "t" ++ [233]%N ++ runes_of_ascii """ :	asx, [ ""1"",
-""abc"" , 4294967296
-    , """ ++ [128512]%N ++ runes_of_ascii """  ]
-    // `tick` ""quote"" 'q'
-    :crc , ""{,}"" :
-    // a // b
-    As
-00 //
-: string_
-    ,
-}
-, Logon ,
-    } packet tag { // " ++ [27880; 37322]%N ++ runes_of_ascii "
-@tag(00
-)a1 { u8
-zchar
-`` , }, @rightPad ( ' '
-    )o i8i8 , f64 Logon @lengthOf(options1)
-    , }
-    packet pack{ }
-// a // b
-")).
-Eval vm_compute in ("<<<M4234>>>" ++ check (runes_of_ascii "packet crc {
-    // packet A { u8 x, }
-    // trailing space 
-    Logon,
-}
-
-options {
-    msg_type = '\x00';
-}
-
-packet falsey {
-    char[0123456789] calculatedFrom @calculatedFrom(""packet"") `say ""hi""`,
-    match As as o {
-        65535 : A,
-        """" : _x,
-        ""`tick`"" : zchar,
-        0123456789 : calculatedFrom,
-    },
-    @tag(00)
-    As {
-        char[] calculatedFrom,
-    },
-    float32 zchar,
-    char[255] lengthOf,
-    @lengthOf(chars)
-    @lengthOf(a1)
-    body @calculatedFrom(""// no comment"") `crlf
-        line`,
-}
-
-root packet _x {
-    @calculatedFrom(""a\\"")
-    repeat i32 o,
-}")).
-Eval vm_compute in ("<<<M450>>>" ++ check (runes_of_ascii "  packet
-    body {
-    @tag( 00 ) zchar[
-255 ]
-//	t
-// `tick` ""quote"" 'q'
-zchar @calculatedFrom( ""it's"" ) , int8 i8i8	,
-    x_y_z @lengthOf(options1 )
-    ,
-    // packet A { u8 x, }
-    zchar[00
-] T,
-repeat float64
-chars , f64 repeatCount `doc` ,
-    repeat i64_
-repeatCount, repeat Header int
-    , uint16 len `line1
-line2`
-    ,
-@lengthOf(	Header)
-@tag( 0123456789
-) float64 u8x @lengthOf(options1 ) `u8 x,`
-    , }options { x = ""\" ++ [233]%N ++ runes_of_ascii """ ; }
-    // " ++ [128512]%N ++ runes_of_ascii " emoji
-    MetaData	trueish	{ options1 float ``  , // a // b
-zchar[ 3]
-    lengthOf , }options{ rootA
-    =""1""  T = """ ++ [128512]%N ++ runes_of_ascii """ }
-")).
-Eval vm_compute in ("<<<M888>>>" ++ check (runes_of_ascii "
-packet packetx //	t
-{
-lengthOf
-    @lengthOf( T )
-    // trailing space 
-    `// not a comment`
-, char[ 42] Header `two words` ,} packet
-    Logon { repeat
-string i64_ `u8 x,`
-, @rightPad ( )match calculatedFrom //
-as
-stringy /// triple
-{ [ 0123456789 , // trailing space 
-7  ,
-""1""
-, 1
-, ""`tick`""	]
-:
-    zchar
-, 3 //	t
-:
-packetx
-    [
-    10,""CRC32"" ]:	x
-[7 ]  :
-    // `tick` ""quote"" 'q'
-    Foo
-,[ ""CRC32""
-,
-10 ,
-// " ++ [27880; 37322]%N ++ runes_of_ascii "
-// packet A { u8 x, }
-65535 ,
-// " ++ [27880; 37322]%N ++ runes_of_ascii "
-// a // b
-7 ,""{,}"" ] : A // @lengthOf(
-, 00 :rootA
-    , }
-, } options{
-}
-")).
-Eval vm_compute in ("<<<M482>>>" ++ check (runes_of_ascii "options
-{	roots
-=
-true
-; MetaDataX =
-    3 ; trueish =10
-    } packet
-o
-    { @tag(
-    4294967296 // " ++ [128512]%N ++ runes_of_ascii " emoji
-) u8 u`
-` ,
-    Foo	, }
-    //	t
-    MetaData matchKey {  } packet
-zchar { float@lengthOf(Pad ) , @calculatedFrom(
-""" ++ [28040; 24687]%N ++ runes_of_ascii """ )
-@tag(007 )
-    repeat u16	string_ `" ++ [233]%N ++ runes_of_ascii "` ,@leftPad //	t
-(
-'\x00'
-    ) chars calculatedFrom	, @tag( 0	)	u128 @lengthOf(calculatedFrom ) `two words` , zchar[ 42 ] //	t
-i64_
-    @lengthOf(//
-u128) ``
-// trailing space 
-// c
-,Packet { repeat char[]
-    len
-, leftPad `line1
-line2` ,	}
-, }")).
-Eval vm_compute in ("<<<M937>>>" ++ check (runes_of_ascii "options
-{ u8x =  0123456789
-    ;
-    } packet rootA {
-    i8i8 repeatCount
-    ,}
-// " ++ [27880; 37322]%N ++ runes_of_ascii "
-// a // b
-root packet MetaDataX { // @lengthOf(
-Logon // " ++ [27880; 37322]%N ++ runes_of_ascii "
-{int64 i8i8 @lengthOf(  Header ) ,
-    //x
-    } ,}	root packet // @lengthOf(
-Pad {	roots { i16 Logon
-    @calculatedFrom( """ ++ [233]%N ++ runes_of_ascii "t" ++ [233]%N ++ runes_of_ascii """) , match As	as float
-{ [ ""packet"" //
-, ""// no comment""
-    ] : a1
-, 65535	: f32a, [
-    ""a\""b""
-    ,
-""// no comment"" , ""a	b"",
-    //
-    ""a	b"",
-""a\\""]
-:
-x , ""{,}""
-:	rootA
-,
-10
-:	msg_type
-, } ,
-}
-    ,
-} options {}
-")).
-Eval vm_compute in ("<<<M4089>>>" ++ check (runes_of_ascii "  root
-packet
-    _x
-
-{ } 
-/// triple
-		root packet  // `tick` ""quote"" 'q'
-
-rootA
-
-{
-
-@lengthOf( msg_type )
-
-@calculatedFrom( ""a	b"" )
-Z9_ {	repeat
-
-char[]
-	msg_type`two words` ,}
-	,}
-options 
-{
-    Logon
-=7 ;
 u8x
-
-= '0' 
-len =
-
-    '\x00'
-
-    Foo
-= 
-10 ;}	MetaData leftPad 
-{	// @lengthOf(
-  Packet
-i8i8  `a\`
-    ,
-
-    msg_type  int // " ++ [27880; 37322]%N ++ runes_of_ascii "
-	`line1
-line2`
-    // @lengthOf(
-  /// triple
-  ,
-    uint8x i8i8 `it's` ,BodyLength
-repeatCount ,// packet A { u8 x, }
-	}
-")).
-Eval vm_compute in ("<<<M1375>>>" ++ check (runes_of_ascii "
-root
-    packet _x
-    { }
-    /// triple
-    root packet // `tick` ""quote"" 'q'
-rootA
-{
-    @lengthOf( msg_type
-)
-    @calculatedFrom( ""a	b""
-    ) Z9_ { repeat char[]msg_type `two words` , }, }
-options {Logon = 7 ; u8x = '0' len =
-'\x00' Foo	=
-    10 ; } MetaData leftPad
-    {// @lengthOf(
-Packet
-i8i8 `a\`
-,
-msg_type
-    int// " ++ [27880; 37322]%N ++ runes_of_ascii "
-`line1
-line2`
-// @lengthOf(
-/// triple
-,
-uint8x
-i8i8
-    `it's`
-    ,BodyLength repeatCount ,// packet A { u8 x, }
-}
-")).
-Eval vm_compute in ("<<<M464>>>" ++ check (runes_of_ascii "options {zchar
-    =
-""packet"";o = ""CRC32"" ; len
-= """" ;
-}packet roots {// @lengthOf(
-char
-// `tick` ""quote"" 'q'
-//x
-f32a , } root packet
-    x { char[ 7 ]
-pack // " ++ [27880; 37322]%N ++ runes_of_ascii "
-,	}  packet x { zchar[
-// `tick` ""quote"" 'q'
-// @lengthOf(
-1
-    ] A
-@calculatedFrom( ""a\""b""
-/// triple
 // trailing space 
-) , repeat metadata
-Foo , u8x
-lengthOf ,A Header, @calculatedFrom( ""CRC32"" )
-@calculatedFrom(/// triple
-""""  )
-@leftPad ( '\x00' ) pack x_y_z,
-}
-")).
-Eval vm_compute in ("<<<M462>>>" ++ check (runes_of_ascii "
-root
-packet string_ {	@tag(	65535)  u8  u8x@calculatedFrom( ""it's"" // packet A { u8 x, }
-) , zchar[	10
-// " ++ [27880; 37322]%N ++ runes_of_ascii "
-//
-] pack,  string
-f32a  ,
-Pad x`say ""hi""`
-,@calculatedFrom(
-""`tick`""	) // c
-@rightPad ( ' ') @calculatedFrom(
-""" ++ [128512]%N ++ runes_of_ascii """ )
-    match tag as  u128 {
-    [
-255 ,	""packet""
-,	4294967296 , ""// no comment"" , ""\n"" , // a // b
-65535 ,""""
-    // c
-    , """ ++ [28040; 24687]%N ++ runes_of_ascii """] : falsey ""CRC32"" : uint8x , [ 007 , 3 , """ ++ [28040; 24687]%N ++ runes_of_ascii """
-] : As , }	,
-} 	 ")).
-Eval vm_compute in ("<<<M419>>>" ++ check (runes_of_ascii "/// triple
-MetaData
-x {uint64 u `doc`	, }
-root
-packet
-i8i8
-    {uint32
-    zchar @lengthOf( chars ) , string rootA@calculatedFrom(
-    ""\n""
-) , } packet	MetaDataX
-//	t
-/// triple
-{ i32 A
-    @lengthOf( string_ )
-`` , @calculatedFrom( ""a\\"" ) @lengthOf( roots ) msg_type asx  `crlf
-line` ,@lengthOf(//
-metadata ) @calculatedFrom( """ ++ [28040; 24687]%N ++ runes_of_ascii """) @leftPad
-(
-) repeat string o `// not a comment`
-    , } //x")).
-Eval vm_compute in ("<<<M1251>>>" ++ check (runes_of_ascii "
-packet
-T {
-uint64
-rootA
-    `it's`
-    ,
 // a // b
+MetaDataX `line1
+line2`
+    // c
+    ,@calculatedFrom( ""a\""b"" ) match
+    matchKey as asx {
+    [ ""CRC32"" , ""a\""b""
+]// " ++ [27880; 37322]%N ++ runes_of_ascii "
+:
+msg_type
+    ,
+    }
+, i8 string_ @calculatedFrom( ""{,}"" )
+    ,@lengthOf(
+lengthOf
+    //
+    ) zchar[42 ]
+    _x
 // packet A { u8 x, }
-@tag( 255
-    )
-f32a
-{
-string
-MetaDataX
-`" ++ [28040; 24687; 31867; 22411]%N ++ runes_of_ascii "`
-, } ,uint8x
-    //x
-    @lengthOf( u8x ),
-match
-x
-    // a // b
-    as As	{4294967296	: trueish , ""{,}"": Packet , 1  :float
-,  007 : repeatCount , //	t
-}, @leftPad (  '0' ) @lengthOf( crc ) int16 // trailing space 
-u128 , calculatedFrom
-asx
-`u8 x,` ,
-}
-")).
-Eval vm_compute in ("<<<M74>>>" ++ check (runes_of_ascii "root packet x	{ @calculatedFrom(""a\\"" ) zchar[42 ]float @calculatedFrom(""a\""b""  ) `
+/// triple
+`line1
+line2` ,
+    @lengthOf( asx) repeat// `tick` ""quote"" 'q'
+int8 Header , repeat crc {
+int8 i64_//x
+@calculatedFrom( ""{,}"" ) , } ,repeat _x i8i8 `line1
+line2` , float64// trailing space 
+stringy , MetaDataX { charz
+    { int16 matchKey, repeat
+    i64_,
+    char[ 00] Z9_ `
 ` ,
-    } MetaData o
-    {
-int8
-BodyLength,string len ,
-    string len , float falsey ,T float
-    , }	MetaData pack { /// triple
-charz o
-`// not a comment`	,	float64 f32a `tab	here`  , int32  u8x  `// not a comment` ,char[10 ]
-a1
-, float32 options1  ,
-} // `tick` ""quote"" 'q'")).
-Eval vm_compute in ("<<<M4248>>>" ++ check (runes_of_ascii "// c
-root packet o {
-    @tag(42)
-    a1,
-}
-
-options {
-    asx = char[0];
-    int = '\x00';
-    _x = ""it's""
-    packetx = ""// no comment""
-    u8x = """ ++ [233]%N ++ runes_of_ascii "t" ++ [233]%N ++ runes_of_ascii """
-}
-
-root packet T {
-    @lengthOf(float)
-    match falsey as matchKey {
-        ""a\\"" : x_y_z,
+    match As
+    //x
+    as Packet { 3 : crc , [
+//	t
+// @lengthOf(
+1 ,
+00
+]: Header // " ++ [27880; 37322]%N ++ runes_of_ascii "
+,	255 :_x , 42 : body
+,	[0	] : chars
+    [ 4294967296
+, 65535 ] :chars , }
+/// triple
+// @lengthOf(
+,  }
+// trailing space 
+// @lengthOf(
+, } , } MetaData falsey {
+char[
+255
+] u128 , u8 Header`tab	here`
+,
+string float ,} root packet int { Logon i64_  ,
+    @calculatedFrom(
+""1""
+) zchar { u {
+    zchar[
+255 ] Pad , } , stringy {
+    Pad metadata `u8 x,` ,
+}	, repeat	string i8i8, char[]
+    As@calculatedFrom(
+""\n"" ) ,}
+    // " ++ [27880; 37322]%N ++ runes_of_ascii "
+    , @lengthOf( packetx // a // b
+) @lengthOf(
+    i64_ ) body `line1
+line2`,@lengthOf(roots)match
+// `tick` ""quote"" 'q'
+// trailing space 
+MetaDataX as uint8x { // `tick` ""quote"" 'q'
+[	007
+/// triple
+// " ++ [27880; 37322]%N ++ runes_of_ascii "
+, //x
+255
+    ,
+00]
+    :	body// c
+, [ 65535 , ""1"",// `tick` ""quote"" 'q'
+1  ,
+""\n""//	t
+, 1	,
+    ""CRC32""
+    ,
+    //	t
+    0
+    ] :trueish
+,
+} , uint64 Foo
+, zchar {metadata
+@lengthOf(Pad)//	t
+`crlf
+line` ,
+    match u as charz { 65535 :
+    //x
+    int
+[ ""1""]
+:
+// c
+//
+a1 , [4294967296 , 00,""" ++ [233]%N ++ runes_of_ascii "t" ++ [233]%N ++ runes_of_ascii """ , """ ++ [28040; 24687]%N ++ runes_of_ascii """ ,
+    00 ]: matchKey , [ ""a\\"" ] : Logon ,
+    },
+repeat rootA { int16
+Foo @lengthOf( rootA // " ++ [27880; 37322]%N ++ runes_of_ascii "
+),options1 `u8 x,` // trailing space 
+, }	,  },  match chars as u
+// " ++ [128512]%N ++ runes_of_ascii " emoji
+// " ++ [128512]%N ++ runes_of_ascii " emoji
+{ [//
+""it's"" , 007	, """ ++ [233]%N ++ runes_of_ascii "t" ++ [233]%N ++ runes_of_ascii """, ""abc"" ,""\n"" ,
+// " ++ [128512]%N ++ runes_of_ascii " emoji
+// " ++ [27880; 37322]%N ++ runes_of_ascii "
+"""" // c
+] :	repeatCount,
+65535
+    // " ++ [128512]%N ++ runes_of_ascii " emoji
+    :Z9_
+, [ 007  , ""abc"",""// no comment""
+, """ ++ [28040; 24687]%N ++ runes_of_ascii """ ] :  falsey ,
+00
+:
+    string_}
+,  char repeatCount , } packet Foo {char[]
+a1 @calculatedFrom( """")`line1
+line2`
+, uint16 // a // b
+MetaDataX
+    // packet A { u8 x, }
+    `say ""hi""`,char[] A ,
+// trailing space 
+// " ++ [128512]%N ++ runes_of_ascii " emoji
+f64 int @lengthOf(Pad  ) , u32
+    BodyLength
+, float64
+trueish @lengthOf(lengthOf )
+// `tick` ""quote"" 'q'
+// trailing space 
+`crlf
+line` , @tag(255 ) match Z9_ as tag { [ ""a\""b"",4294967296  ,  ""{,}"" ,""{,}""/// triple
+] :	Pad	, 1 : lengthOf ,	0123456789 : msg_type  , ""// no comment"":
+    BodyLength, [ ""1"" ] : string_ [3 , 0,1 , 1
+, ""\" ++ [233]%N ++ runes_of_ascii """ // " ++ [27880; 37322]%N ++ runes_of_ascii "
+,
+    """"
+    , 00
+    // c
+    ] // c
+: asx} , body `say ""hi""`// `tick` ""quote"" 'q'
+,	}options { x	='0'
+; u8x // " ++ [128512]%N ++ runes_of_ascii " emoji
+= u64;
+// c
+//	t
+string_ = ""a\""b"" }
+")).
+Eval vm_compute in ("<<<M1817>>>" ++ check (runes_of_ascii "root packet Logon {
+    zchar[65535] uint8x,
+    @leftPad()
+    repeat f32 Packet,
+    @leftPad(' ')
+    match i8i8 as body {
+        65535 : MetaDataX,
+        007 : Packet,
+    },
+    @calculatedFrom(""packet"")
+    uint8x,
+    Foo @lengthOf(asx),
+    i64 int,//
+    @leftPad(' ')
+    repeat rootA {
+        int32 zchar,
+        match stringy as MetaDataX {
+            [
+                """ ++ [28040; 24687]%N ++ runes_of_ascii """, 10, 42, ""a\""b"", 42,
+                7
+            ] : msg_type,
+            [42] : stringy,
+            ""a\\"" : Header,
+            255 : calculatedFrom,
+            // a // b
+            /// triple
+            [007] : MetaDataX,
+            ""a\""b"" : stringy,
+        },
+        char[007] int @lengthOf(o) `" ++ [233]%N ++ runes_of_ascii "`,
+        // trailing space 
         //x
     },
+    @leftPad()
+    @lengthOf(metadata)
+    match asx as leftPad {
+        ""x y"" : matchKey,
+        // packet A { u8 x, }
+    },
+    repeat leftPad `say ""hi""`,
+    char[65535] Packet,
+}
+
+root packet x_y_z {
+    match uint8x as As {
+        [0123456789] : T,
+        65535 : x_y_z,
+        ""\n"" : u,
+        4294967296 : Packet,
+        [65535] : T,
+        255 : uint8x,
+    },
+    int32 Packet `tab	here`,
+    @calculatedFrom("""")
+    @calculatedFrom(""a\\"")
+    u64 repeatCount @calculatedFrom(""""),
+    Header zchar `doc`,
+    match _x as metadata {
+        [255, ""1""] : Logon,
+        [
+            """ ++ [233]%N ++ runes_of_ascii "t" ++ [233]%N ++ runes_of_ascii """, 00, 65535, 7, 42,
+            00
+        ] : packetx,
+        4294967296 : stringy,
+    },
+    char[00] tag `doc`,
+    @lengthOf(int)
+    string u,
+    @tag(007)
+    int16 stringy,
+    float64 crc,
+    @calculatedFrom(""x y"")
+    repeat u16 f32a,
 }
 
 options {
-    zchar = 0// trailing space 
-    repeatCount = uint64;// a // b
+    u128 = ""CRC32""
+    options1 = false
+    u8x = ""`tick`"";
 }")).
-Eval vm_compute in ("<<<M666>>>" ++ check (runes_of_ascii "
-packet u8x { //
-asx
-// a // b
-// @lengthOf(
-`say ""hi""`
-    //x
-    ,}  MetaData Foo{ packetx
-MetaDataX `" ++ [28040; 24687; 31867; 22411]%N ++ runes_of_ascii "` ,}
-packet  a1 {@calculatedFrom(""\" ++ [233]%N ++ runes_of_ascii """// trailing space 
-) len
-// " ++ [27880; 37322]%N ++ runes_of_ascii "
-// c
-`` ,@calculatedFrom(
-""a\\""// trailing space 
-) @lengthOf(
-calculatedFrom )//	t
-string
-    msg_type
-// trailing space 
-// c
+Eval vm_compute in ("<<<M1750>>>" ++ check (runes_of_ascii "  MetaData roots
+
+    { zchar[
+7] body
+    ,}
+	packet trueish {
+
+    repeat 
+zchar[
+	0123456789  ]
+	i8i8
+
+    `line1
+line2` 
+        //x
+	/// triple
+	  , } 
+packet
+
+u8x {  x_y_z
+
+chars
+
 ,
-}
-// packet A { u8 x, }
-")).
-Eval vm_compute in ("<<<M1986>>>" ++ check (runes_of_ascii "MetaData
-    u { }  options {
-// c
-// @lengthOf(
-float = int8 ;rootA =false ; As =	int16 // `tick` ""quote"" 'q'
-repeatCount
-    // trailing space 
-    =
-    int16
-; u8x =
-    //	t
-    '\x00' ; } options options	{
-    repeatCount
-= 0
-u128
-    //
-    = false ; i64_
-// trailing space 
-// `tick` ""quote"" 'q'
-= '0' ; //	t
-}
-")).
-Eval vm_compute in ("<<<M1186>>>" ++ check (runes_of_ascii "root
-packet u128 {match zchar
-as
-    msg_type // `tick` ""quote"" 'q'
-{ 7
-    //	t
-    :	lengthOf ,0123456789:MetaDataX
-""{,}""  :  o
-    ,  255
-// trailing space 
-//
-://
-metadata ,
-[ 1 ] :	A , [
-007 , ""a\\"" , 0123456789
-,	255 ,
-""\" ++ [233]%N ++ runes_of_ascii """,  007 ] :
-// `tick` ""quote"" 'q'
-// packet A { u8 x, }
-falsey,
-}
-    , } // a // b")).
-Eval vm_compute in ("<<<M2043>>>" ++ check (runes_of_ascii "MetaData
-    u { }  options {
-// c
-// @lengthOf(
-float = int8 ;rootA =false ; As =	int16 // `tick` ""quote"" 'q'
-repeatCount
-    // trailing space 
-    =
-    int16
-; u8x =
-    //	t
-    '\x00' ; } options	{
-    repeatCount
-= 0
-u128
-    //
-    = false ; i64_
-// trailing space 
-// `tick` ""quote"" 'q'
-= match ; //	t
-}
-")).
-Eval vm_compute in ("<<<M1872>>>" ++ check (runes_of_ascii "MetaData
-    u { options  } {
-// c
-// @lengthOf(
-float = int8 ;rootA =false ; As =	int16 // `tick` ""quote"" 'q'
-repeatCount
-    // trailing space 
-    =
-    int16
-; u8x =
-    //	t
-    '\x00' ; } options	{
-    repeatCount
-= 0
-u128
-    //
-    = false ; i64_
-// trailing space 
-// `tick` ""quote"" 'q'
-= '0' ; //	t
-}
-")).
-Eval vm_compute in ("<<<M2022>>>" ++ check (runes_of_ascii "MetaData
-    u { }  options {
-// c
-// @lengthOf(
-float = int8 ;rootA =false ; As =	int16 // `tick` ""quote"" 'q'
-repeatCount
-    // trailing space 
-    =
-    int16
-; u8x =
-    //	t
-    '\x00' ; } options	{
-    repeatCount
-= 0
-u128
-    //
-    = ; false i64_
-// trailing space 
-// `tick` ""quote"" 'q'
-= '0' ; //	t
-}
-")).
-Eval vm_compute in ("<<<M2033>>>" ++ check (runes_of_ascii "MetaData
-    u { }  options {
-// c
-// @lengthOf(
-float = int8 ;rootA =false ; As =	int16 // `tick` ""quote"" 'q'
-repeatCount
-    // trailing space 
-    =
-    int16
-; u8x =
-    //	t
-    '\x00' ; } options	{
-    repeatCount
-= 0
-u128
-    //
-    = false ; `
-`
-// trailing space 
-// `tick` ""quote"" 'q'
-= '0' ; //	t
-}
-")).
-Eval vm_compute in ("<<<M1998>>>" ++ check (runes_of_ascii "MetaData
-    u { }  options {
-// c
-// @lengthOf(
-float = int8 ;rootA =false ; As =	int16 // `tick` ""quote"" 'q'
-repeatCount
-    // trailing space 
-    =
-    int16
-; u8x =
-    //	t
-    '\x00' ; } options	{
+
+@calculatedFrom(
+    """ ++ [28040; 24687]%N ++ runes_of_ascii """ ) @calculatedFrom(
+	""" ++ [28040; 24687]%N ++ runes_of_ascii """	) @tag( 007
+
+    ) int64
+
+Foo// trailing space 
+	,
+int8 _x  `it's`
+,
+	match
+
+x
+	as
+    Foo
+{ [	// c
+		65535
+    ,""" ++ [233]%N ++ runes_of_ascii "t" ++ [233]%N ++ runes_of_ascii """ ,""abc"" ,""\" ++ [233]%N ++ runes_of_ascii """	// @lengthOf(
+
+	,	10
+
+    ]
+    : 	 // packet A { u8 x, }
+	  Pad , }	,
+
+body
+{
     match
-= 0
-u128
-    //
-    = false ; i64_
-// trailing space 
-// `tick` ""quote"" 'q'
-= '0' ; //	t
-}
-")).
-Eval vm_compute in ("<<<M433>>>" ++ check (runes_of_ascii "packet
-rootA {@lengthOf(	A ) @leftPad (
-    '0' )@lengthOf( _x ) char[ 0
-]
-// `tick` ""quote"" 'q'
+
+msg_type as
+	uint8x
+
+{  ""a\""b"":falsey 
+0	: Packet  ""it's"" :  lengthOf  //	t
+    """ ++ [28040; 24687]%N ++ runes_of_ascii """  : charz
+
+, }  ,
 // a // b
-len , } root packet
-    _x
-{ @lengthOf( MetaDataX
-) u16 x
-`say ""hi""` , match
-    string_ as Foo{ 42  :
-string_
-    ,
-00: T , },char[]
-trueish ,repeat calculatedFrom // c
-x_y_z , // a // b
-}")).
-Eval vm_compute in ("<<<M672>>>" ++ check (runes_of_ascii "//
-root packet  Foo{ char[]//
-leftPad // trailing space 
-,}options { } root
-packet i64_ { @lengthOf( x_y_z ) @calculatedFrom( ""abc"" )  @lengthOf( leftPad )
-repeat body	zchar `it's`  , char[]
-    metadata @lengthOf( MetaDataX
-//	t
-/// triple
-) `doc`
-    , repeat
-Foo Header , /// triple
-}
-")).
-Eval vm_compute in ("<<<M116>>>" ++ check (runes_of_ascii "packet string_ { trueish
-{options1 @lengthOf( Z9_ ) `// not a comment` , // c
-_x
-    //	t
-    @lengthOf( u128), /// triple
-match packetx as charz{[
-1 , 3 ,
-""a\\"" //x
-,10 ] : lengthOf ,
-""" ++ [28040; 24687]%N ++ runes_of_ascii """
-:float	""CRC32"" : // a // b
-calculatedFrom
-, """ ++ [128512]%N ++ runes_of_ascii """ : tag , 00
-:
-rootA, }
-    ,} ,}")).
-Eval vm_compute in ("<<<M749>>>" ++ check (runes_of_ascii "
-MetaData o{ char[]BodyLength
-,
-}
-    options
-    { Foo=uint32 i8i8  = char[ 10
-    ];
-    Logon =  true i64_= string ;
-    }root
-//
+    }
+, @tag( 42 )
+
+    @calculatedFrom(
+    ""\" ++ [233]%N ++ runes_of_ascii """)// c
+  @lengthOf(u )
+	repeat  char
+    calculatedFrom , @tag(
 // @lengthOf(
-packet a1
-{ i8i8
-`tab	here` , @calculatedFrom( ""a	b""
-    ) string calculatedFrom
-    @calculatedFrom( ""abc"" )	``
-, }
-")).
-Eval vm_compute in ("<<<M1593>>>" ++ check (runes_of_ascii "packet
-//	t
-// trailing space 
-_x {
+	// " ++ [128512]%N ++ runes_of_ascii " emoji
+	1
+    )@rightPad( '\x00'
+	)
+    @lengthOf(
+
+    f32a	) 
+int16	pack `" ++ [233]%N ++ runes_of_ascii "`,  @lengthOf(
+    // c
+  A  //x
+
+	)	repeat
+char[]  options1 , 
+}
+packet _x {
+
+    @lengthOf( options1)  string	u8x@lengthOf(	_x	// a // b
+) 
+, 
+repeat 
+  // " ++ [128512]%N ++ runes_of_ascii " emoji
 // packet A { u8 x, }
-// c
-char[
-3
-    ] u8x @lengthOf(
-u8x ) , @calculatedFrom(""" ++ [128512]%N ++ runes_of_ascii """ // @lengthOf(
-)
-i16	Foo
-@lengthOf(	string_
-    )`doc`	, repeat repeat	i64 metadata , @lengthOf( string_
-) i8 // c
-u  `line1
-line2`	,
+
+Pad {	As
+	{
+	matchKey
+    chars	,
+}
+, // trailing space 
+    } , repeat 
+string
+    crc 
+        //
+    `line1
+line2` ,  
+  //
+}	packet crc {
+    @calculatedFrom( ""{,}"" 
+) a1 u128
+
+    , }	//	t")).
+Eval vm_compute in ("<<<M294>>>" ++ check (runes_of_ascii "MetaData roots { zchar[ 7 ] body , } packet trueish { repeat zchar[ 0123456789
+] i8i8 `line1
+line2`
+//x
+/// triple
+, } packet u8x { x_y_z chars
+, @calculatedFrom( """ ++ [28040; 24687]%N ++ runes_of_ascii """) @calculatedFrom(
+    """ ++ [28040; 24687]%N ++ runes_of_ascii """ )
+    @tag( 007) int64
+Foo// trailing space 
+,int8 _x`it's`
+, match x as Foo {
+[// c
+65535,	""" ++ [233]%N ++ runes_of_ascii "t" ++ [233]%N ++ runes_of_ascii """	,""abc"" ,
+""\" ++ [233]%N ++ runes_of_ascii """// @lengthOf(
+,	10 ]: // packet A { u8 x, }
+Pad
+, } ,
+body
+{ match msg_type as uint8x {
+""a\""b"" :	falsey 0 :  Packet""it's""
+:lengthOf //	t
+""" ++ [28040; 24687]%N ++ runes_of_ascii """:
+charz ,} ,
+    // a // b
+    }	,	@tag( 42 )@calculatedFrom(
+""\" ++ [233]%N ++ runes_of_ascii """
+    )// c
+@lengthOf(
+u )
+    repeat char
+calculatedFrom	, @tag(
+// @lengthOf(
+// " ++ [128512]%N ++ runes_of_ascii " emoji
+1  )
+@rightPad ( '\x00'
+) @lengthOf( f32a )
+int16 pack
+`" ++ [233]%N ++ runes_of_ascii "` , @lengthOf(
+    // c
+    A //x
+) repeat
+char[]
+    options1 , } packet _x { @lengthOf(
+    options1)  string
+    u8x @lengthOf(
+_x// a // b
+), repeat
+// " ++ [128512]%N ++ runes_of_ascii " emoji
+// packet A { u8 x, }
+Pad
+{ As	{ matchKey chars ,
+} ,// trailing space 
+} ,repeat string crc
+    //
+    `line1
+line2` ,
+    //
+    } packet crc{@calculatedFrom( ""{,}"" )  a1 u128 , } //	t")).
+Eval vm_compute in ("<<<M1563>>>" ++ check (runes_of_ascii "options {
+    LittleEndian = false;
+    FixedStringPadFromLeft = false;
+    FixedStringPadChar = ' ';
+}
+packet Fill {
+    uint16 Qty,
+    uint64 clOrdID,
+    repeat i64 Flags,
+}
+packet Ack {
+    zchar[7] clOrdID,
+    u64 lastPx,
+    char[] Note,
+    repeat Fill,
+    int32 count,
+}
+packet Quote {
+    u8 venue,
+    InRef40 {
+        char[] Qty,
+    },
+    zchar[5] Flags,
+    @rightPad('\x00') char[12] msgKind,
+}
+packet Logout {
+    InSym79 {
+        int32 Qty,
+        Fill,
+        char[3] x,
+        repeat InNote29 {
+            i16 price,
+            Ack,
+            f64 x,
+            zchar[8] count,
+        },
+    },
+}
+root packet Logon {
+    zchar[1] sym,
+    u32 count,
+    u16 tag7 @lengthOf(Body),
+    match count as Body {
+        [122, 152] : Ack,
+        118 : Logout,
+        61 : Quote,
+        161 : Fill,
+    },
+    u32 Acct @calculatedFrom(""CRC32""),
 }
 ")).
-Eval vm_compute in ("<<<M4098>>>" ++ check (runes_of_ascii "options {
-    LittleEndian = true;
+Eval vm_compute in ("<<<M1538>>>" ++ check (runes_of_ascii "// top
+options // c0
+{
+    // c1
+LittleEndian = true ;
+    // c5
+StringPrefixLenType // c6a
+  // c6b
+= // c7a
+  // c7b
+u8 // c8a
+  // c8b
+;
+    // c9
+ArrayPrefixLenType
+    // c10
+= // c11a
+  // c11b
+u8 // c12
+; } // c14a
+  // c14b
+packet
+    // c15
+Ack // c16a
+  // c16b
+{ // c17a
+  // c17b
+} // c18a
+  // c18b
+root // c19a
+  // c19b
+packet
+    // c20
+Quote // c21a
+  // c21b
+{ // c22
+Ack
+    // c23
+,
+    // c24
+InSym94
+    // c25
+{ // c26
+repeat // c27
+Ack , // c29
+} ,
+    // c31
+u16 msgKind // c33
+, u16 OrderId // c36a
+  // c36b
+@lengthOf(
+    // c37
+Body
+    // c38
+)
+    // c39
+,
+    // c40
+match msgKind as
+    // c43
+Body
+    // c44
+{ [ 110 // c47
+,
+    // c48
+48 // c49
+] // c50
+: Ack , } , } // c56a
+  // c56b
+")).
+Eval vm_compute in ("<<<M375>>>" ++ check (runes_of_ascii "packet zchar
+{BodyLength x // `tick` ""quote"" 'q'
+, // trailing space 
+@rightPad ('0' )
+match _x as x { [
+    """ ++ [128512]%N ++ runes_of_ascii """ ] : falsey  , 65535
+:  chars 0 : falsey , [ ""packet""
+    ] :// c
+metadata	0 : repeatCount,00//
+:  packetx ,
+} , } packet crc  { match body
+//x
+//x
+as len {
+7:
+    leftPad
+,007 : x_y_z , 00
+:
+    x_y_z, [ 0, 10 ,
+10 , //	t
+10	] :	calculatedFrom // packet A { u8 x, }
+, ""packet"" : calculatedFrom } , @leftPad ( '0' ) @tag(
+4294967296
+    ) match u128 // c
+as trueish
+{	3
+: i64_
+    ,
+    }, char[255
+]o @lengthOf(leftPad
+    )
+`u8 x,` , } MetaData o {float
+roots ,
+    x_y_z MetaDataX , packetx zchar
+    , }")).
+Eval vm_compute in ("<<<M310>>>" ++ check (runes_of_ascii "packet  T{ i8 MetaDataX	,
+    repeat x
+    {
+int32 lengthOf ,
+char[ 007 ]repeatCount
+`" ++ [233]%N ++ runes_of_ascii "`
+, string // " ++ [27880; 37322]%N ++ runes_of_ascii "
+Header @lengthOf(
+    len ),	}
+,	@rightPad (
+' '
+    ) @tag(	3  )
+@tag(
+00 ) char[ 00 ]rootA	, f64 string_ , @calculatedFrom( ""it's""
+// " ++ [27880; 37322]%N ++ runes_of_ascii "
+//
+) char[]falsey ``	,
+repeat
+    a1 {	i64_ u128 ,
+    zchar[
+4294967296 ]
+i8i8 ,
+Logon @lengthOf( packetx
+    // trailing space 
+    ) ,} , lengthOf float
+, @calculatedFrom( ""{,}""
+    ) u@lengthOf( rootA
+) `say ""hi""`
+//
+//x
+,	zchar[
+    //	t
+    10
+    ] metadata `` ,}
+options { } //	t")).
+Eval vm_compute in ("<<<M337>>>" ++ check (runes_of_ascii "options { }packet BodyLength {i8i8 @lengthOf(trueish ) , repeat body ,// " ++ [27880; 37322]%N ++ runes_of_ascii "
+@calculatedFrom( ""1"" )repeat int64 i64_ ,@tag(0 )
+    MetaDataX msg_type `" ++ [28040; 24687; 31867; 22411]%N ++ runes_of_ascii "`  , Pad { Header @calculatedFrom( """"), }, @tag(  42
+    ) u8 asx `u8 x,` , @tag( 3
+) repeat string_ {
+metadata
+{// @lengthOf(
+char[ 0123456789  ] crc, Packet
+    `" ++ [28040; 24687; 31867; 22411]%N ++ runes_of_ascii "` , //x
+options1
+    // " ++ [128512]%N ++ runes_of_ascii " emoji
+    `tab	here` // packet A { u8 x, }
+,
+}, repeat Packet , } , }
+    //x
+    options { x
+    =  char[ 10	] ; }")).
+Eval vm_compute in ("<<<M1524>>>" ++ check (runes_of_ascii "packet Frame {
+    u8 HK,
+    u8 BK,
+    u8 TK,
+    match HK as Hdr {
+        1 : HdrA,
+        2 : HdrB,
+    },
+    match BK as Body {
+        1 : BodyA,
+        2 : BodyB,
+    },
+    match TK as Trl {
+        1 : TrlA,
+    },
+}
+packet HdrA {
+    u8 a,
+}
+packet HdrB {
+    u16 b,
+}
+packet BodyA {
+    u32 c,
+}
+packet BodyB {
+    u64 d,
+}
+packet TrlA {
+    u8 e,
+}
+root packet Msg {
+    Frame,
+    u8 x,
+}
+")).
+Eval vm_compute in ("<<<M2092>>>" ++ check (runes_of_ascii "
+packet // " ++ [128512]%N ++ runes_of_ascii " emoji
+  	charz
+
+    {repeat
+
+options1
+	{ char
+x_y_z  
+      /// triple
+//x
+
+,
+	T {
+
+string_ @calculatedFrom( ""1""	), 
 }
 
+    ,	f64 
+crc
+    ,u64 
+A 
+    // trailing space 
+/// triple
+	@calculatedFrom(""CRC32""
+) , }	,
+} MetaData
+    MetaDataX	//	t
+	{ 
+}
+root 
+packet
+
+    u128{	string_ {repeat
+pack
+
+{  As
+matchKey ,
+}
+    ,
+} ,  }
+
+")).
+Eval vm_compute in ("<<<M338>>>" ++ check (runes_of_ascii "root packet // `tick` ""quote"" 'q'
+roots{@rightPad (// trailing space 
+'0'
+)char[255 ] T`line1
+line2`
+,}packet msg_type {	Logon { f64 x_y_z`` ,
+    },	i8 pack @lengthOf( stringy )
+, @tag(
+    4294967296)char[] msg_type ,
+stringy // a // b
+{ match x as
+    roots { 1 :
+options1 ,
+    ""it's"" : BodyLength , }, } , }
+")).
+Eval vm_compute in ("<<<M599>>>" ++ check (runes_of_ascii "root packet tag { }  packet MetaDataX{char[007	]
+// c
+/// triple
+asx  @calculatedFrom( ""a\""b""
+) `say ""hi""`// " ++ [27880; 37322]%N ++ runes_of_ascii "
+,  @tag(4294967296 )
+    char[1//x
+] packetx @calculatedFrom( @calculatedFrom(""a\""b""
+    ) ,
+// " ++ [128512]%N ++ runes_of_ascii " emoji
+// a // b
+@calculatedFrom(""" ++ [233]%N ++ runes_of_ascii "t" ++ [233]%N ++ runes_of_ascii """  ) repeat pack // " ++ [27880; 37322]%N ++ runes_of_ascii "
+,
+    } // c")).
+Eval vm_compute in ("<<<M217>>>" ++ check (runes_of_ascii "options{ // " ++ [128512]%N ++ runes_of_ascii " emoji
+x =i8 BodyLength	=	'\x00'	;
+options1 // a // b
+=// c
+zchar[
+    42] ; msg_type = ""a	b""  x_y_z =// a // b
+int64
+; } //x
+options
+{ pack =
+""a\\""matchKey  =
+    true Packet =""abc"" //	t
+falsey =
+'\x00'
+; }  root packet charz { body
+    `doc` , } // c")).
+Eval vm_compute in ("<<<M629>>>" ++ check (runes_of_ascii "root packet tag { }  packet MetaDataX{char[007	]
+// c
+/// triple
+asx  @calculatedFrom( ""a\""b""
+) `say ""hi""`// " ++ [27880; 37322]%N ++ runes_of_ascii "
+,  @tag(4294967296 )
+    char[1//x
+] packetx @calculatedFrom(""a\""b""
+    ) ,
+// " ++ [128512]%N ++ runes_of_ascii " emoji
+// a // b
+@calculatedFrom(""" ++ [233]%N ++ runes_of_ascii "t" ++ [233]%N ++ runes_of_ascii """  ) ) repeat pack // " ++ [27880; 37322]%N ++ runes_of_ascii "
+,
+    } // c")).
+Eval vm_compute in ("<<<M485>>>" ++ check (runes_of_ascii "root tag packet { }  packet MetaDataX{char[007	]
+// c
+/// triple
+asx  @calculatedFrom( ""a\""b""
+) `say ""hi""`// " ++ [27880; 37322]%N ++ runes_of_ascii "
+,  @tag(4294967296 )
+    char[1//x
+] packetx @calculatedFrom(""a\""b""
+    ) ,
+// " ++ [128512]%N ++ runes_of_ascii " emoji
+// a // b
+@calculatedFrom(""" ++ [233]%N ++ runes_of_ascii "t" ++ [233]%N ++ runes_of_ascii """  ) repeat pack // " ++ [27880; 37322]%N ++ runes_of_ascii "
+,
+    } // c")).
+Eval vm_compute in ("<<<M672>>>" ++ check (runes_of_ascii "root packet a" ++ [769]%N ++ runes_of_ascii "b { }  packet MetaDataX{char[007	]
+// c
+/// triple
+asx  @calculatedFrom( ""a\""b""
+) `say ""hi""`// " ++ [27880; 37322]%N ++ runes_of_ascii "
+,  @tag(4294967296 )
+    char[1//x
+] packetx @calculatedFrom(""a\""b""
+    ) ,
+// " ++ [128512]%N ++ runes_of_ascii " emoji
+// a // b
+@calculatedFrom(""" ++ [233]%N ++ runes_of_ascii "t" ++ [233]%N ++ runes_of_ascii """  ) repeat pack // " ++ [27880; 37322]%N ++ runes_of_ascii "
+,
+    } // c")).
+Eval vm_compute in ("<<<M566>>>" ++ check (runes_of_ascii "root packet tag { }  packet MetaDataX{char[007	]
+// c
+/// triple
+asx  @calculatedFrom( ""a\""b""
+) `say ""hi""`// " ++ [27880; 37322]%N ++ runes_of_ascii "
+,  ,4294967296 )
+    char[1//x
+] packetx @calculatedFrom(""a\""b""
+    ) ,
+// " ++ [128512]%N ++ runes_of_ascii " emoji
+// a // b
+@calculatedFrom(""" ++ [233]%N ++ runes_of_ascii "t" ++ [233]%N ++ runes_of_ascii """  ) repeat pack // " ++ [27880; 37322]%N ++ runes_of_ascii "
+,
+    } // c")).
+Eval vm_compute in ("<<<M1576>>>" ++ check (runes_of_ascii "options {
+    LittleEndian = true;
+}
 packet Logon {
     u8 x,
     string user,
 }
-
 packet Logout {
     u16 reason,
 }
-
 packet Empty {
 }
-
 root packet Frame {
     u16 MsgType,
     u16 BodyLen @lengthOf(Body),
     u8 flags,
     Logon Body,
     u32 trailer,
-}")).
-Eval vm_compute in ("<<<M1662>>>" ++ check (runes_of_ascii "packet
-//	t
-// trailing space 
-_x {
-// packet A { u8 x, }
-// c
-char[
-3
-    ] u8x @lengthOf(
-u8x ) , @calculatedFrom(""" ++ [128512]%N ++ runes_of_ascii """ " ++ [127]%N ++ runes_of_ascii "// @lengthOf(
-)
-i16	Foo
-@lengthOf(	string_
-    )`doc`	, repeat	i64 metadata , @lengthOf( string_
-) i8 // c
-u  `line1
-line2`	,
 }
 ")).
-Eval vm_compute in ("<<<M1585>>>" ++ check (runes_of_ascii "packet
-//	t
-// trailing space 
-_x {
-// packet A { u8 x, }
-// c
-char[
-3
-    ] u8x @lengthOf(
-u8x ) , @calculatedFrom(""" ++ [128512]%N ++ runes_of_ascii """ // @lengthOf(
-)
-i16	Foo
-@lengthOf(	string_
-    )int16	, repeat	i64 metadata , @lengthOf( string_
-) i8 // c
-u  `line1
-line2`	,
-}
-")).
-Eval vm_compute in ("<<<M1632>>>" ++ check (runes_of_ascii "packet
-//	t
-// trailing space 
-_x {
-// packet A { u8 x, }
-// c
-char[
-3
-    ] u8x @lengthOf(
-u8x ) , @calculatedFrom(""" ++ [128512]%N ++ runes_of_ascii """ // @lengthOf(
-)
-i16	Foo
-@lengthOf(	string_
-    )`doc`	, repeat	i64 metadata , @lengthOf( string_
-) i8 // c
-  `line1
-line2`	,
-}
-")).
-Eval vm_compute in ("<<<M3737>>>" ++ check (runes_of_ascii "options {
-    charz = ""x y""
-    calculatedFrom = '0'
-}
-
-packet msg_type {
-    msg_type asx,
-    string packetx,
-    MetaDataX,
-    Header {
-        i64 packetx `tab	here`,
+Eval vm_compute in ("<<<M1590>>>" ++ check (runes_of_ascii "packet Foo {
+    match i64_ as x_y_z {
+        65535 : BodyLength,
+        [3, ""CRC32""] : u,
+        255 : T,
+        [""x y""] : leftPad,
+        0123456789 : As,
     },
+    zchar[1] int,
 }
 
-options {
-    // @lengthOf(
-    uint8x = 0
-    x_y_z = ""x y"";
+packet float {
+    uint16 Packet,
 }")).
-Eval vm_compute in ("<<<M1637>>>" ++ check (runes_of_ascii "packet
-//	t
-// trailing space 
-_x {
-// packet A { u8 x, }
-// c
-char[
-3
-    ] u8x @lengthOf(
-u8x ) , @calculatedFrom(""" ++ [128512]%N ++ runes_of_ascii """ // @lengthOf(
-)
-i16	Foo
-@lengthOf(	string_
-    )`doc`	, repeat	i64 metadata , @lengthOf( string_
-) i8 // c
-u  	,
-}
-")).
-Eval vm_compute in ("<<<M468>>>" ++ check (runes_of_ascii "options { i64_	= ""\n""; BodyLength
-    = float64 i64_ =
-    false ; }MetaData  Packet  {	uint16 A `u8 x,` ,
-    zchar[ 007 ]i64_ , char[ 007	]
-chars ,
-    float64
-x_y_z,MetaDataX stringy`// not a comment`, }
-MetaData
-msg_type { }")).
-Eval vm_compute in ("<<<M1243>>>" ++ check (runes_of_ascii "packet Header { char
-i8i8 @calculatedFrom( // c
-""a	b""
-    ) , //x
-u16
-    Z9_ ,	} MetaData As	{
-// a // b
-//x
-zchar[ 10
-]crc , } MetaData stringy{
-body metadata `
-` , char[] trueish	`doc`
-, char[] Logon `" ++ [28040; 24687; 31867; 22411]%N ++ runes_of_ascii "` ,
-    }
-")).
-Eval vm_compute in ("<<<M4155>>>" ++ check (runes_of_ascii "options {
-    trueish = ""`tick`"";
-    string_ = """ ++ [233]%N ++ runes_of_ascii "t" ++ [233]%N ++ runes_of_ascii """
-    // c
-}
-
-root packet body {
-    stringy @calculatedFrom(""a	b"") `line1
-        line2`,
-}
-
-packet Logon {
-    @leftPad(' ')
-    //	t
-    i64 string_ `u8 x,`,
-}")).
-Eval vm_compute in ("<<<M693>>>" ++ check (runes_of_ascii "packet _x {  repeat roots
-matchKey `" ++ [233]%N ++ runes_of_ascii "`
-, @rightPad ('\x00')@calculatedFrom( ""it's"" ) @lengthOf(
-tag )
-    match//	t
-zchar
-as zchar
-{
-0123456789  : trueish [""{,}""
-] : metadata , 7 : u, ""`tick`"" : asx
-    ,} ,}")).
-Eval vm_compute in ("<<<M1687>>>" ++ check (runes_of_ascii "options { trueish = = ""`tick`"" ; string_= """ ++ [233]%N ++ runes_of_ascii "t" ++ [233]%N ++ runes_of_ascii """
-    // c
-    } root
-    packet body { stringy @calculatedFrom(
-""a	b"" ) `line1
-line2` , }
-packet Logon {
-    @leftPad(
-    ' ' ) //	t
-u16 string_ `u8 x,` ,
-}
-")).
-Eval vm_compute in ("<<<M1854>>>" ++ check (runes_of_ascii "options { trueish = ""`tick`"" ; string_= """ ++ [233]%N ++ runes_of_ascii "t" ++ [233]%N ++ runes_of_ascii """
-    // c
-    } root
-    packet na" ++ [239]%N ++ runes_of_ascii "ve { stringy @calculatedFrom(
-""a	b"" ) `line1
-line2` , }
-packet Logon {
-    @leftPad(
-    ' ' ) //	t
-u16 string_ `u8 x,` ,
-}
-")).
-Eval vm_compute in ("<<<M1783>>>" ++ check (runes_of_ascii "options { trueish = ""`tick`"" ; string_= """ ++ [233]%N ++ runes_of_ascii "t" ++ [233]%N ++ runes_of_ascii """
-    // c
-    } root
-    packet body { stringy @calculatedFrom(
-""a	b"" ) `line1
-line2` , }
-packet { Logon
-    @leftPad(
-    ' ' ) //	t
-u16 string_ `u8 x,` ,
-}
-")).
-Eval vm_compute in ("<<<M1831>>>" ++ check (runes_of_ascii "options { trueish = ""`tick`"" ; string_= """ ++ [233]%N ++ runes_of_ascii "t" ++ [233]%N ++ runes_of_ascii """
-    // c
-    } root
-    packet body { stringy @calculatedFrom(
-""a	b"" ) `line1
-line2` , }
-packet Logon {
-    @leftPad(
-    ' ' ) //	t
-u16 string_ `u8 x,` ,
-
-")).
-Eval vm_compute in ("<<<M1824>>>" ++ check (runes_of_ascii "options { trueish = ""`tick`"" ; string_= """ ++ [233]%N ++ runes_of_ascii "t" ++ [233]%N ++ runes_of_ascii """
-    // c
-    } root
-    packet body { stringy @calculatedFrom(
-""a	b"" ) `line1
-line2` , }
-packet Logon {
-    @leftPad(
-    ' ' ) //	t
-u16 string_ = ,
-}
-")).
-Eval vm_compute in ("<<<M714>>>" ++ check (runes_of_ascii "  root packet u128 { string
-// trailing space 
-//	t
-Pad  `" ++ [28040; 24687; 31867; 22411]%N ++ runes_of_ascii "`
-, @calculatedFrom( ""a\\"")	msg_type, @calculatedFrom( """ ++ [233]%N ++ runes_of_ascii "t" ++ [233]%N ++ runes_of_ascii """ )	match Pad as f32a {	3 :// trailing space 
-repeatCount  ,	} , } // c")).
-Eval vm_compute in ("<<<M978>>>" ++ check (runes_of_ascii "MetaData
-As
-{
-    u128 packetx
-`" ++ [233]%N ++ runes_of_ascii "` //	t
-, tag	o,zchar[ // c
-255 ] rootA `two words`  , rootA msg_type	`it's`
-, u64 packetx , } MetaData T{
-char[
-3
-    ]
-    _x , }
-// trailing space 
-")).
-Eval vm_compute in ("<<<M530>>>" ++ check (runes_of_ascii "// c
-packet BodyLength { u { char[ 007] i8i8`a\` , pack{ match charz as // packet A { u8 x, }
-Header
-    { ""\n""
-    : leftPad } , } , string u8x @calculatedFrom( """ ++ [233]%N ++ runes_of_ascii "t" ++ [233]%N ++ runes_of_ascii """	)	, } ,
-}
-")).
-Eval vm_compute in ("<<<M4060>>>" ++ check (runes_of_ascii "packet Pad {
-}
-
-root packet f32a {
-    // c
-    @calculatedFrom(""it's"")
-    @tag(255)
-    match roots as trueish {
-        7 : tag,
-    },
-    repeat zchar[0] repeatCount,
-}")).
-Eval vm_compute in ("<<<M857>>>" ++ check (runes_of_ascii "packet  MetaDataX
-{
-char
-    falsey,
-    zchar[ 1
-]a1 @calculatedFrom( ""a\\""
-), }packet
-calculatedFrom{ zchar[42 ]
-_x `tab	here` , string roots@lengthOf( chars) , }")).
-Eval vm_compute in ("<<<M1959>>>" ++ check (runes_of_ascii "MetaData
-    u { }  options {
-// c
-// @lengthOf(
-float = int8 ;rootA =false ; As =	int16 // `tick` ""quote"" 'q'
-repeatCount
+Eval vm_compute in ("<<<M124>>>" ++ check (runes_of_ascii "
+root packet crc{ u16	Z9_ `tab	here`,
+repeat rootA,
     // trailing space 
-    =
-    int16")).
-Eval vm_compute in ("<<<M2107>>>" ++ check (runes_of_ascii "options{
-_x
-= true
-} `line1
-line2`
-{ o	= /// triple
-false
-    ; chars
-= ""\n"" } root packet	Pad
-/// triple
-// packet A { u8 x, }
-{	chars
-    // a // b
-    ,}")).
-Eval vm_compute in ("<<<M2320>>>" ++ check (runes_of_ascii "// c
-packet x { @lengthOf( metadata ) repeat lengthOf
-,a1{
-trueish	, ,// c
-repeat//	t
-MetaDataX , } , zchar[
-    42	] rootA // `tick` ""quote"" 'q'
-,
     }
+packet leftPad	{ @rightPad( )
+    @tag(  0 // a // b
+)repeat	i16 As `doc` , } MetaData  body // a // b
+{x f32a,  }
+// c
 ")).
-Eval vm_compute in ("<<<M4328>>>" ++ check (runes_of_ascii "packet
-
-    A
-
-    {
-
-match
-k
-
-as
-n	{
-    [ 
-1
-	, 22,""c c"" ,
-4
-
-,
-5 
-,
-
-""f"" ,
-7 ,
-
-8
-,
-
-""i"" 
-,10
-	, 11,
-	""l""
-	]
-    :
-	B
-
-    2 :
-
-    C}
-, }
-
-")).
-Eval vm_compute in ("<<<M2400>>>" ++ check (runes_of_ascii "// c
-packet x { @lengthOf( metadata , repeat lengthOf
-,a1{
-trueish	,// c
-repeat//	t
-MetaDataX , } , zchar[
-    42	] rootA // `tick` ""quote"" 'q'
-,
-    }
-")).
-Eval vm_compute in ("<<<M1228>>>" ++ check (runes_of_ascii "// packet A { u8 x, }
-options { matchKey =	true ; } MetaData int {uint16
-    packetx`tab	here` ,	}
-options/// triple
-{ msg_type = """"  ; } // @lengthOf(")).
-Eval vm_compute in ("<<<M3929>>>" ++ check (runes_of_ascii "packet A {
-    match k as n {
-        [
-            1, 22, 007, 4, 5,
-            66, 7, 8, 9, 10,
-            11
-        ] : B,
-        2 : C,
+Eval vm_compute in ("<<<M1518>>>" ++ check (runes_of_ascii "root packet Frame {
+    u8 K,
+    Logon first,
+    match K as Body {
+        1 : Logon,
+        2 : Logout,
     },
-}")).
-Eval vm_compute in ("<<<M1795>>>" ++ check (runes_of_ascii "options { trueish = ""`tick`"" ; string_= """ ++ [233]%N ++ runes_of_ascii "t" ++ [233]%N ++ runes_of_ascii """
-    // c
-    } root
-    packet body { stringy @calculatedFrom(
-""a	b"" ) `line1
-line2` , }
-packet Logon {")).
-Eval vm_compute in ("<<<M982>>>" ++ check (runes_of_ascii "packet	u128 { @leftPad ( ' ' )int32 _x `line1
-line2`  ,
-    @leftPad (
-    ) u64 stringy
-    // @lengthOf(
-    @lengthOf( matchKey
-    ) `it's` ,}
+}
+packet Logon {
+    string user,
+}
+packet Logout {
+    u16 reason,
+}
 ")).
-Eval vm_compute in ("<<<M1271>>>" ++ check (runes_of_ascii "packet options1 {
-@leftPad
-( '0' )
-asx //
-{ MetaDataX ,u16  u8x `
-`
-, trueish `a\` ,float32 rootA @calculatedFrom( ""a	b"" ) ,}// a // b
+Eval vm_compute in ("<<<M1886>>>" ++ check (runes_of_ascii "
+packet A {
+	match  k 
+as
+
+n	{  [	""a"",
+
+    ""bb""
+
+    ,
+""c c""
+
+    ,
+
+    ""d""
+,  ""e"" 
+, ""f"" , 
+""g"" ,
+""h""
+,""i""
+
+    , ""j"" 
 ,
-    }")).
-Eval vm_compute in ("<<<M1165>>>" ++ check (runes_of_ascii "
-MetaData calculatedFrom	{	crc	Logon `` , x
-u8x //x
-`line1
-line2`
-//	t
+""k""
+
+    ] :
+	B
+, 
+2
+:
+	C} ,
+}
+")).
+Eval vm_compute in ("<<<M468>>>" ++ check (runes_of_ascii "packet
+    // `tick` ""quote"" 'q'
+    crc
 // packet A { u8 x, }
-, i64
-u128  ,char[ 0123456789] packetx //x
-, }
-")).
-Eval vm_compute in ("<<<M3782>>>" ++ check (runes_of_ascii "MetaData T {
-    i64 body `
-    `,
-    string packetx,
-    int Pad,// @lengthOf(
-    char[] A `" ++ [233]%N ++ runes_of_ascii "`,
-    i8i8 float,
-    repeatCount o,
+//	t
+$ {
+u32 a1 ,
+    // trailing space 
+    roots
+charz //
+`two words`,	}
+    MetaData int {
+} /// triple")).
+Eval vm_compute in ("<<<M431>>>" ++ check (runes_of_ascii "packet
+    // `tick` ""quote"" 'q'
+    crc
+// packet A { u8 x, }
+//	t
+{
+u32 a1 ,
+    // trailing space 
+    roots
+charz //
+`two words`}	,
+    MetaData int {
+} /// triple")).
+Eval vm_compute in ("<<<M710>>>" ++ check (runes_of_ascii "root packet len // trailing space 
+{
+// " ++ [27880; 37322]%N ++ runes_of_ascii "
+//	t
+char[10
+] metadata	@lengthOf( o ) `crlf
+line`,
+    @rightPad
+( ' '
+) string
+    Header @calculatedFrom( ""a\\""
+    ), }")).
+Eval vm_compute in ("<<<M1467>>>" ++ check (runes_of_ascii "
+options {
+	LittleEndian
+
+    =true ;}  packet
+    B
+	{u8
+	a
+,string
+
+    s  , }
+root
+
+    packet
+
+    P
+	{ u16
+L@lengthOf(
+B )
+
+    , B , u8 t  , 
 }")).
-Eval vm_compute in ("<<<M3786>>>" ++ check (runes_of_ascii "root packet matchKey {
-    // c
-    zchar[3] pack @calculatedFrom(""a	b"") `doc`,
+Eval vm_compute in ("<<<M2014>>>" ++ check (runes_of_ascii "root packet len {
+    // " ++ [27880; 37322]%N ++ runes_of_ascii "
+    //	t
+    char[10] metadata @lengthOf(o) `crlf
+    " ++ [8232]%N ++ runes_of_ascii "line`,
+    @rightPad(' ')
+    string Header @calculatedFrom(""a\\""),
+}")).
+Eval vm_compute in ("<<<M1907>>>" ++ check (runes_of_ascii "root
+
+    packet 
+matchKey 
+{
+	zchar[  3 ]pack
+	@calculatedFrom(// c
+
+	""a	b"")  `doc` ,
+	}
+
+    options{ }MetaData
+A
+{
+int8
+	msg_type , }
+")).
+Eval vm_compute in ("<<<M695>>>" ++ check (runes_of_ascii "root packet len // trailing space 
+{
+// " ++ [27880; 37322]%N ++ runes_of_ascii "
+//	t
+char[10
+] metadata	@lengthOf( o ) `crlf
+line`,
+    @rightPad
+( ' '
+) string
+    Head")).
+Eval vm_compute in ("<<<M1920>>>" ++ check (runes_of_ascii "packet rootA {
 }
 
+// `tick` ""quote"" 'q'
+/// triple
 options {
+    stringy = 0123456789;
+    T = 42;
+    string_ = ""a\""b"";
 }
-
-MetaData A {
-    int8 msg_type,
-}")).
-Eval vm_compute in ("<<<M632>>>" ++ check (runes_of_ascii "packet	roots { zchar @lengthOf(calculatedFrom )  `" ++ [233]%N ++ runes_of_ascii "` , zchar[ 1] Foo `
-`, }
-options {
-    i64_ = ""a\\"" Logon= 1
-i64_= i64	}
-")).
-Eval vm_compute in ("<<<M3548>>>" ++ check (runes_of_ascii "packet B {
+//")).
+Eval vm_compute in ("<<<M1237>>>" ++ check (runes_of_ascii "root packet matchKey { zchar[ 3 ] pack // c
+@calculatedFrom( ""a	b"" ) `doc` , } options { } MetaData A { int8 msg_type , }")).
+Eval vm_compute in ("<<<M1453>>>" ++ check (runes_of_ascii "packet B {
     u8 a,
 }
 root packet P {
     u8 K,
+    u8 L @lengthOf(Body),
     match K as Body {
         1 : B,
     },
-    u16 L @lengthOf(Body),
 }
 ")).
-Eval vm_compute in ("<<<M3334>>>" ++ check (runes_of_ascii "root packet matchKey { zchar[ 3 ] pack @calculatedFrom( ""a	b"" ) `doc` // c
-, } options { } MetaData A { int8 msg_type , }")).
-Eval vm_compute in ("<<<M351>>>" ++ check (runes_of_ascii "packet lengthOf
-    { @tag(007 )trueish
-    // c
-    {
-    repeat string asx,
-} , } options
-    {roots=
-    ""x y""	; }
-")).
-Eval vm_compute in ("<<<M4175>>>" ++ check (runes_of_ascii "packet  A	{
-match  k as
-	n
-
-    { [ 1
-
-,
-	22
-,
-	007 ,
-
-4 , 5 
-,  66	, 7,
-8,
-
-    9
-
-, 10	]
-    : B  2 : C
-
-}  ,  }")).
-Eval vm_compute in ("<<<M1427>>>" ++ check (runes_of_ascii "
-packet
-    falsey { Header@calculatedFrom(""packet""   , char[
-    0123456789 ] packetx
-    , } // `tick` ""quote"" 'q'")).
-Eval vm_compute in ("<<<M3696>>>" ++ check (runes_of_ascii "packet lengthOf {
-    @tag(007)
-    trueish {
-        repeat string asx,
-    },
-}
-
-options {
-    roots = ""x y"";
+Eval vm_compute in ("<<<M956>>>" ++ check (runes_of_ascii "packet A {
+    u16 len @lengthOf(body) `tab
+	x`,
+    u32 crc @calculatedFrom(""CRC32"") `tab
+	x`,
+    string body,
 }")).
-Eval vm_compute in ("<<<M1468>>>" ++ check (runes_of_ascii "
-packet
-    falsey { Header@calculatedFrom(""packet""  ) , char[
-    0123456789 ] packetx
-    , } // `tick` ""quo")).
-Eval vm_compute in ("<<<M4338>>>" ++ check (runes_of_ascii "
-
-  packet
-	falsey { 
-Header @calculatedFrom( ""packet"") , char[
-0123456789 ]
-	packetx
-	,}	// `tick` ""quo
- 
-")).
-Eval vm_compute in ("<<<M4438>>>" ++ check (runes_of_ascii "
-packet	A	{
-	match
-k as
-    n
-{	[
-
-    ""a""
-	,
-	22 ,
-
-""c c""
-]:
-
-    B
-
-,2  :
-
-    C
-
-    } ,
+Eval vm_compute in ("<<<M1860>>>" ++ check (runes_of_ascii "options {
+    LittleEndian = true;
 }
 
-")).
-Eval vm_compute in ("<<<M838>>>" ++ check (runes_of_ascii "options{ x_y_z = ""CRC32"" ;
-} MetaData
-matchKey { char[] u `u8 x,` , // trailing space 
-}options {}
-")).
-Eval vm_compute in ("<<<M18>>>" ++ check (runes_of_ascii "// packet A { u8 x, }
-options{lengthOf= 255 // " ++ [27880; 37322]%N ++ runes_of_ascii "
-; /// triple
-}packet MetaDataX {int32  body
-, }")).
-Eval vm_compute in ("<<<M4254>>>" ++ check (runes_of_ascii "options
-{
-	options1  = char[	00 ]; len =
-
-""" ++ [128512]%N ++ runes_of_ascii """
-	; a1 =  42 Header
-    =
-	' ' 
-} packet	Foo
-{ 
-}
-
-")).
-Eval vm_compute in ("<<<M3727>>>" ++ check (runes_of_ascii "packet o {
-    repeat Logon uint8x,
-}
-
-options {
-    asx = zchar[3]
-    stringy = '\x00'// c
+root packet P {
+    u16 a,
+    u32 Sum @calculatedFrom(""CR\
+    C32""),
 }")).
-Eval vm_compute in ("<<<M461>>>" ++ check (runes_of_ascii "packet x_y_z {msg_type {  char[]Z9_ @lengthOf( Packet
-    ) `` , }, } // packet A { u8 x, }")).
-Eval vm_compute in ("<<<M3306>>>" ++ check (runes_of_ascii "MetaData float { float64 charz `
+Eval vm_compute in ("<<<M950>>>" ++ check (runes_of_ascii "packet A {
+    u16 len @lengthOf(body) `
+x`,
+    u32 crc @calculatedFrom(""CRC32"") `
+x`,
+    string body,
+}")).
+Eval vm_compute in ("<<<M908>>>" ++ check (runes_of_ascii "packet A {
+  match k as n {
+    [1, 22, ""c c"", 4, 5, ""f"", 7, 8, ""i"", 10, 11, ""l""] : B
+    2 : C
+  },
+}")).
+Eval vm_compute in ("<<<M1748>>>" ++ check (runes_of_ascii "
+MetaData body
+{ i64 
+pack
+`it's`
+
+, 
+} 
+	// c
+    	packet stringy
+
+{ int16
+
+calculatedFrom 
+,	}")).
+Eval vm_compute in ("<<<M867>>>" ++ check (runes_of_ascii "packet A {
+  match k as n {
+    [""a"", 22, ""c c"", 4, ""e"", 66, ""g"", 8, ""i""] : B
+    2 : C
+  },
+}")).
+Eval vm_compute in ("<<<M1217>>>" ++ check (runes_of_ascii "MetaData float { float64 charz `
 ` , } root packet chars { @rightPad ( '0' ) Foo , }
 // c
 ")).
-Eval vm_compute in ("<<<M3282>>>" ++ check (runes_of_ascii "MetaData float { float64 charz `
-` ,
+Eval vm_compute in ("<<<M1196>>>" ++ check (runes_of_ascii "MetaData float { float64 charz `
+` , } root // c
+packet chars { @rightPad ( '0' ) Foo , }")).
+Eval vm_compute in ("<<<M1407>>>" ++ check (runes_of_ascii "packet chars { } packet MetaDataX
 // c
-} root packet chars { @rightPad ( '0' ) Foo , }")).
-Eval vm_compute in ("<<<M3493>>>" ++ check (runes_of_ascii "packet chars { } packet // c
-MetaDataX { @tag( 42 ) i16 string_ , repeat x `say ""hi""` , }")).
-Eval vm_compute in ("<<<M1944>>>" ++ check (runes_of_ascii "MetaData
-    u { }  options {
+{ @tag( 42 ) i16 string_ , repeat x `say ""hi""` , }")).
+Eval vm_compute in ("<<<M1880>>>" ++ check (runes_of_ascii "packet A {
+    match k as n {
+        [""a"", ""bb"", 007, ""d""] : B,
+        2 : C,
+    },
+}")).
+Eval vm_compute in ("<<<M1137>>>" ++ check (runes_of_ascii "packet metadata { Logon { A `" ++ [28040; 24687; 31867; 22411]%N ++ runes_of_ascii "`
 // c
-// @lengthOf(
-float = int8 ;rootA =false ; As =	int16")).
-Eval vm_compute in ("<<<M2300>>>" ++ check (runes_of_ascii "options
-{ } options { BodyLength= u16 Header|= f64 ; u128 =
-    true
-    ; } // a // b")).
-Eval vm_compute in ("<<<M2233>>>" ++ check (runes_of_ascii "options
-{ } options { =BodyLength u16 Header= f64 ; u128 =
-    true
-    ; } // a // b")).
-Eval vm_compute in ("<<<M3233>>>" ++ check (runes_of_ascii "packet metadata { Logon { A `" ++ [28040; 24687; 31867; 22411]%N ++ runes_of_ascii "` , tag o , // c
-} , zchar len `// not a comment` , }")).
-Eval vm_compute in ("<<<M2292>>>" ++ check (runes_of_ascii "options
-{ } options { BodyLength= u16 Header= f64 ; u128 =
-    true
-    ; } // a // ")).
-Eval vm_compute in ("<<<M3456>>>" ++ check (runes_of_ascii "packet o { repeat Logon uint8x , } options { asx = zchar[ 3
-// c
-] stringy = '\x00' }")).
-Eval vm_compute in ("<<<M1105>>>" ++ check (runes_of_ascii "  packet
-    //	t
-    lengthOf
-{ @tag( 3
-)	@lengthOf( lengthOf )u64  options1 , }")).
-Eval vm_compute in ("<<<M3399>>>" ++ check (runes_of_ascii "MetaData body {
-// c
-i64 pack `it's` , } packet stringy { int16 calculatedFrom , }")).
-Eval vm_compute in ("<<<M1740>>>" ++ check (runes_of_ascii "options { trueish = ""`tick`"" ; string_= """ ++ [233]%N ++ runes_of_ascii "t" ++ [233]%N ++ runes_of_ascii """
-    // c
-    } root
-    packet body")).
-Eval vm_compute in ("<<<M2832>>>" ++ check (runes_of_ascii ") char[] u64 , int16 float32 = } match @lengthOf( match @lengthOf( MetaData i32")).
-Eval vm_compute in ("<<<M2887>>>" ++ check (runes_of_ascii "packet A {
+, tag o , } , zchar len `// not a comment` , }")).
+Eval vm_compute in ("<<<M1342>>>" ++ check (runes_of_ascii "packet o // c
+{ repeat Logon uint8x , } options { asx = zchar[ 3 ] stringy = '\x00' }")).
+Eval vm_compute in ("<<<M1374>>>" ++ check (runes_of_ascii "packet o { repeat Logon uint8x , } options { asx = zchar[ 3 ] stringy = '\x00' // c
+}")).
+Eval vm_compute in ("<<<M847>>>" ++ check (runes_of_ascii "packet A {
   match k as n {
-    [""a"", ""bb"", ""c c"", ""d""] : B
+    [1, 22, 007, 4, 5, 66, 7, 8] : B,
     2 : C
   },
 }")).
-Eval vm_compute in ("<<<M2906>>>" ++ check (runes_of_ascii "packet A {
+Eval vm_compute in ("<<<M1623>>>" ++ check (runes_of_ascii "
+packet  A
+{ match k	as
+
+n
+
+    { 
+[	1,  22
+,007 , 4]	:
+    B
+,
+
+2
+	:
+C  },}
+")).
+Eval vm_compute in ("<<<M830>>>" ++ check (runes_of_ascii "packet A {
   match k as n {
-    [1, 22, ""c c"", 4, 5] : B
+    [1, 22, ""c c"", 4, 5, ""f""] : B
     2 : C
   },
 }")).
-Eval vm_compute in ("<<<M2898>>>" ++ check (runes_of_ascii "packet A {
-  match k as n {
-    [1, 22, 007, 4, 5] : B
-    2 : C
-  },
-}")).
-Eval vm_compute in ("<<<M2875>>>" ++ check (runes_of_ascii "packet A {
+Eval vm_compute in ("<<<M755>>>" ++ check (runes_of_ascii "; i8 ) @leftPad [ ' ' false { @lengthOf( zchar[ i64 ""\n"" string MetaData")).
+Eval vm_compute in ("<<<M786>>>" ++ check (runes_of_ascii "packet A {
   match k as n {
     [1, ""bb"", 007] : B,
     2 : C
   },
 }")).
-Eval vm_compute in ("<<<M1383>>>" ++ check (runes_of_ascii "root packet
-//	t
-/// triple
-calculatedFrom { char[0 ]
-Packet, }
-")).
-Eval vm_compute in ("<<<M2868>>>" ++ check (runes_of_ascii "packet A {
+Eval vm_compute in ("<<<M777>>>" ++ check (runes_of_ascii "packet A {
   match k as n {
-    [""a"", 22] : B,
+    [1, ""bb""] : B,
     2 : C
   },
 }")).
-Eval vm_compute in ("<<<M144>>>" ++ check (runes_of_ascii "MetaData Pad{	x_y_z
-    // packet A { u8 x, }
-    T ,
-    }
-")).
-Eval vm_compute in ("<<<M2720>>>" ++ check (runes_of_ascii "i8 root root 10 [ [ u32 } u8 zchar[ char packet char[] u64")).
-Eval vm_compute in ("<<<M1259>>>" ++ check (runes_of_ascii "packet float //	t
-{ //
-}
-MetaData i8i8 {uint8x i8i8,
-}")).
-Eval vm_compute in ("<<<M1436>>>" ++ check (runes_of_ascii "
-packet
-    falsey { Header@calculatedFrom(""packet""  )")).
-Eval vm_compute in ("<<<M399>>>" ++ check (runes_of_ascii "
-packet
-    msg_type {repeat //	t
-lengthOf _x ,
-}")).
-Eval vm_compute in ("<<<M1101>>>" ++ check (runes_of_ascii "packet
-len{
-int16 trueish
-`
-` // " ++ [128512]%N ++ runes_of_ascii " emoji
-, }
-")).
-Eval vm_compute in ("<<<M1216>>>" ++ check (runes_of_ascii "
-MetaData
-    A
-    //x
-    { char[] asx ,}
-")).
-Eval vm_compute in ("<<<M2770>>>" ++ check (runes_of_ascii "as match zchar[ packet @leftPad = as zchar[")).
-Eval vm_compute in ("<<<M4476>>>" ++ check (runes_of_ascii "root packet
-A { u8
+Eval vm_compute in ("<<<M1275>>>" ++ check (runes_of_ascii "
+// c
+packet x { @rightPad ( ) repeat roots Logon `doc` , }")).
+Eval vm_compute in ("<<<M1295>>>" ++ check (runes_of_ascii "packet x { @rightPad ( ) repeat roots Logon `doc`
+// c
+, }")).
+Eval vm_compute in ("<<<M45>>>" ++ check (runes_of_ascii "
+MetaData int	{ string f32a//	t
+`two words`
+, } //")).
+Eval vm_compute in ("<<<M1676>>>" ++ check (runes_of_ascii "
+MetaData 
+M{
+u8 x`a
 
-    x
-`a
 b`
-, }
+, T
 
-")).
-Eval vm_compute in ("<<<M729>>>" ++ check (runes_of_ascii "
-packet // packet A { u8 x, }
-rootA { }")).
-Eval vm_compute in ("<<<M2773>>>" ++ check (runes_of_ascii "@tag( i16 MetaData @calculatedFrom( ;")).
-Eval vm_compute in ("<<<M1208>>>" ++ check (runes_of_ascii "options{
-Logon
-    //x
-    = ' '; }")).
-Eval vm_compute in ("<<<M3030>>>" ++ check (runes_of_ascii "root packet A {
-    u8 x `a
+t
+`a
 
-b`,
-}")).
-Eval vm_compute in ("<<<M2740>>>" ++ check ([65533]%N ++ runes_of_ascii "O" ++ [65533; 65533]%N ++ runes_of_ascii "w" ++ [19; 65533; 65533]%N ++ runes_of_ascii "o" ++ [65533; 18]%N ++ runes_of_ascii "/" ++ [65533]%N ++ runes_of_ascii "\i" ++ [65533; 65533; 21; 65533; 65533; 26; 65533; 65533]%N ++ runes_of_ascii "zs" ++ [127; 65533; 29]%N ++ runes_of_ascii "?=%A")).
-Eval vm_compute in ("<<<M1469>>>" ++ check (runes_of_ascii "
-packet
-    falsey { Header@ca")).
-Eval vm_compute in ("<<<M1002>>>" ++ check (runes_of_ascii "//x
-options {
-o =//x
-' '
-; }
-")).
-Eval vm_compute in ("<<<M1421>>>" ++ check (runes_of_ascii "
-packet
-    falsey { Header")).
-Eval vm_compute in ("<<<M2718>>>" ++ check (runes_of_ascii "P@" ++ [65533; 65533; 65533; 65533]%N ++ runes_of_ascii "hB" ++ [65533]%N ++ runes_of_ascii "B" ++ [65533; 65533; 65533; 65533; 65533]%N ++ runes_of_ascii "F}" ++ [0; 65533; 65533; 65533]%N ++ runes_of_ascii "a
-" ++ [65533]%N ++ runes_of_ascii "O" ++ [65533]%N)).
-Eval vm_compute in ("<<<M4213>>>" ++ check (runes_of_ascii "packet Logon {
-    Foo,
-}")).
-Eval vm_compute in ("<<<M2782>>>" ++ check (runes_of_ascii ", char[] ) MetaData u32")).
-Eval vm_compute in ("<<<M3153>>>" ++ check (runes_of_ascii "// a// bpacket A {}")).
-Eval vm_compute in ("<<<M803>>>" ++ check (runes_of_ascii "MetaData
-zchar{ }
-")).
-Eval vm_compute in ("<<<M215>>>" ++ check (runes_of_ascii "
-packet uint8x	{	}")).
-Eval vm_compute in ("<<<M3115>>>" ++ check (runes_of_ascii "packet A {
+b`
+,
 }
-// c" ++ [11]%N)).
-Eval vm_compute in ("<<<M3063>>>" ++ check (runes_of_ascii "packet A {
-}// c" ++ [12288]%N)).
-Eval vm_compute in ("<<<M2827>>>" ++ check (runes_of_ascii "options packet :")).
-Eval vm_compute in ("<<<M2098>>>" ++ check (runes_of_ascii "options{
-_x
-=")).
-Eval vm_compute in ("<<<M2841>>>" ++ check (runes_of_ascii "f63].b{\{1C")).
-Eval vm_compute in ("<<<M2638>>>" ++ check (runes_of_ascii "packet A")).
-Eval vm_compute in ("<<<M2458>>>" ++ check (runes_of_ascii "string")).
-Eval vm_compute in ("<<<M2512>>>" ++ check (runes_of_ascii """a
-b""")).
-Eval vm_compute in ("<<<M2470>>>" ++ check (runes_of_ascii "ROOT")).
-Eval vm_compute in ("<<<M2502>>>" ++ check (runes_of_ascii "//")).
-Eval vm_compute in ("<<<M2478>>>" ++ check (runes_of_ascii "'0")).
-Eval vm_compute in ("<<<M2681>>>" ++ check (runes_of_ascii " ")).
+")).
+Eval vm_compute in ("<<<M1061>>>" ++ check (runes_of_ascii "packet A {
+    u8 x,    // c    u8 y,
+}")).
+Eval vm_compute in ("<<<M1919>>>" ++ check (runes_of_ascii "
+
+  options
+
+{ a
+
+    =
+	1 // a
+; } ")).
+Eval vm_compute in ("<<<M1754>>>" ++ check (runes_of_ascii "packet Header {
+    char[] body,
+}")).
+Eval vm_compute in ("<<<M988>>>" ++ check (runes_of_ascii "packet A {
+ u8 x `d" ++ [133]%N ++ runes_of_ascii "`, // c" ++ [133]%N ++ runes_of_ascii "
+}")).
+Eval vm_compute in ("<<<M512>>>" ++ check (runes_of_ascii "root packet tag { }  packet")).
+Eval vm_compute in ("<<<M1739>>>" ++ check (runes_of_ascii "  packet
+
+A
+	{}
+// c" ++ [12288]%N ++ runes_of_ascii "
+")).
+Eval vm_compute in ("<<<M1387>>>" ++ check (runes_of_ascii "MetaData o { // c
+}")).
+Eval vm_compute in ("<<<M1032>>>" ++ check (runes_of_ascii "// c" ++ [12]%N ++ runes_of_ascii "
+packet A {
+}")).
+Eval vm_compute in ("<<<M1718>>>" ++ check (runes_of_ascii "root packet u {
+}")).
+Eval vm_compute in ("<<<M363>>>" ++ check (runes_of_ascii "// c
+
+
+")).
+Eval vm_compute in ("<<<M722>>>" ++ check (runes_of_ascii "
+	 ")).
